@@ -3,7 +3,9 @@
    is the value the dialect assigns to that text (the converse of Proofs/ParseComplete.v).
    Inversion lemmas for every routine, on the [stream] view of Proofs/Lex.v. *)
 From Coq Require Import NArith ZArith List Bool Lia.
-From AJ Require Import Model.Base Model.Value Model.Utf Model.NumParse Model.JsonParse.
+From Coq Require Import Floats.SpecFloat.
+From AJ Require Import Model.Base Model.FloatModel Model.Value Model.Utf Model.NumParse Model.JsonParse.
+From AJ Require Import Proofs.NumProofs.
 From AJ Require Import Spec.Utf8Spec Spec.Rfc8259 Spec.ParseSpec Spec.Dialect.
 From AJ Require Import Proofs.Sweep Proofs.UtfProofs Proofs.Lex Proofs.StringRT Proofs.ParseDepth
                        Proofs.ParseComplete.
@@ -84,23 +86,27 @@ Proof.
   destruct (move_cons s1 c t G1 C1 S1) as (G2 & S2 & C2 & F2).
   destruct ((c =? 47) && ws) eqn:T.
   - apply andb_prop in T as [T1 T2]. apply N.eqb_eq in T1. subst c ws.
-    injection H as <-. exists [], t. splits; auto.
-    + intros p q X. destruct p; discriminate X.
-    + intros _ x X. discriminate X.
-    + exists []. reflexivity.
-    + congruence.
+    injection H as <-. exists [], t.
+    split; [reflexivity|]. split; [constructor|].
+    split; [intros p q X; destruct p; discriminate X|].
+    split; [intros _ x X; discriminate X|]. split; [exists []; reflexivity|].
+    splits; auto; congruence.
   - destruct (IH (c =? 42) (move s1) t s' G2 S2 H) as (b & r & -> & NZb & NC & HD & (b0 & EB) & G' & S' & C' & F').
-    exists (c :: b), r. splits; auto.
-    + intros p q X. destruct p as [|x p]; cbn [app] in X.
-      * injection X as X1 X2. subst c. apply (HD eq_refl q). exact X2.
-      * injection X as _ X2. exact (NC p q X2).
-    + intros W x X. injection X as X1 _. subst c ws. discriminate T.
-    + destruct (c =? 42) eqn:C42.
-      * apply N.eqb_eq in C42. subst c. cbn [app] in EB.
+    exists (c :: b), r.
+    split; [reflexivity|]. split; [constructor; assumption|].
+    split.
+    { intros p q X. destruct p as [|x p]; cbn [app] in X.
+      - injection X as X1 X2. subst c. apply (HD eq_refl q). exact X2.
+      - injection X as _ X2. exact (NC p q X2). }
+    split.
+    { intros W x X. injection X as X1 _. subst c ws. discriminate T. }
+    split.
+    { destruct (c =? 42) eqn:C42.
+      - apply N.eqb_eq in C42. subst c. cbn [app] in EB.
         exists ((if ws then [42] else []) ++ b0). rewrite <- app_assoc, <- EB. reflexivity.
-      * cbn [app] in EB. subst b.
-        exists ((if ws then [42] else []) ++ c :: b0). rewrite <- app_assoc. reflexivity.
-    + congruence.
+      - cbn [app] in EB. subst b.
+        exists ((if ws then [42] else []) ++ c :: b0). rewrite <- app_assoc. reflexivity. }
+    splits; auto; congruence.
 Qed.
 
 (* a line comment, entered with its second slash latched; the LF stays latched *)
@@ -117,10 +123,10 @@ Proof.
   { change (0 =? 0) with true in H. discriminate H. }
   rewrite (eqb_false _ _ NZ) in H.
   destruct (c =? 10) eqn:T.
-  - apply N.eqb_eq in T. subst c. injection H as <-. exists [], t. splits; auto. congruence.
+  - apply N.eqb_eq in T. subst c. injection H as <-. exists [], t. splits; auto; congruence.
   - apply N.eqb_neq in T.
     destruct (IH s1 c t s' G1 C1 S1 H) as (b & r & -> & FA & G' & S' & C' & F' & L').
-    exists (c :: b), r. splits; auto. congruence.
+    exists (c :: b), r. splits; auto; congruence.
 Qed.
 
 Lemma skip_spaces_inv : forall cf fuel s i s',
@@ -198,3 +204,2044 @@ Proof.
   intros cf fuel s r s' [P|[A _]] H; [exact P|].
   exfalso. exact (skip_spaces_at_end cf fuel s s' A H).
 Qed.
+
+(* ------------------------------------------------------------------------------------- *)
+(* strings *)
+
+Lemma parse_hex4_step_inv : forall n acc s i u s',
+  good s -> stream s = i -> bytes256 i -> acc < 4096 ->
+  parse_hex4 (S n) acc s = (Ok, u, s') ->
+  exists d v t s1, i = d :: t /\ hex_value d = Some v /\ v < 16 /\ good s1 /\ stream s1 = t /\
+     cur s1 = None /\ found s1 = found s /\ parse_hex4 n (acc * 16 + v) s1 = (Ok, u, s').
+Proof.
+  intros n acc s i u s' G S B A H.
+  destruct (cur_cases s i G S) as [(s1 & E & _)|(c & t & s1 & -> & NZ & E & G1 & S1 & C1 & F1 & _)].
+  { cbn [parse_hex4] in H. rewrite E in H. change (0 =? 0) with true in H. discriminate H. }
+  pose proof (bytes256_hd _ _ B) as D.
+  destruct (hex_value c) as [v|] eqn:HV.
+  - destruct (hex_step n acc s c v t G S D HV A) as (s2 & E2 & G2 & S2 & C2 & F2).
+    destruct (decode_hex_digit c v D HV) as [_ V].
+    exists c, v, t, s2. rewrite E2 in H. splits; auto.
+  - cbn [parse_hex4] in H. rewrite E in H. rewrite (eqb_false _ _ NZ) in H.
+    pose proof (decode_hex_nondigit c D HV) as X. apply N.ltb_lt in X. rewrite X in H. discriminate H.
+Qed.
+
+Lemma parse_hex4_inv : forall s i u s',
+  good s -> stream s = i -> bytes256 i -> parse_hex4 4 0 s = (Ok, u, s') ->
+  exists tu t, i = tu ++ t /\ uescape (92 :: 117 :: tu) u /\ u < 65536 /\
+    good s' /\ stream s' = t /\ cur s' = None /\ found s' = found s.
+Proof.
+  intros s i u s' G S B H.
+  destruct (parse_hex4_step_inv 3 0 s i u s' G S B ltac:(lia) H)
+    as (d1 & v1 & t1 & s1 & -> & H1 & V1 & G1 & S1 & C1 & F1 & K1).
+  apply bytes256_tl in B.
+  destruct (parse_hex4_step_inv 2 (0 * 16 + v1) s1 t1 u s' G1 S1 B ltac:(lia) K1)
+    as (d2 & v2 & t2 & s2 & -> & H2 & V2 & G2 & S2 & C2 & F2 & K2).
+  apply bytes256_tl in B.
+  destruct (parse_hex4_step_inv 1 ((0 * 16 + v1) * 16 + v2) s2 t2 u s' G2 S2 B ltac:(lia) K2)
+    as (d3 & v3 & t3 & s3 & -> & H3 & V3 & G3 & S3 & C3 & F3 & K3).
+  apply bytes256_tl in B.
+  destruct (parse_hex4_step_inv 0 (((0 * 16 + v1) * 16 + v2) * 16 + v3) s3 t3 u s' G3 S3 B ltac:(lia) K3)
+    as (d4 & v4 & t4 & s4 & -> & H4 & V4 & G4 & S4 & C4 & F4 & K4).
+  cbn [parse_hex4] in K4. injection K4 as <- <-.
+  exists [d1; d2; d3; d4], t4. split; [reflexivity|].
+  replace ((((0 * 16 + v1) * 16 + v2) * 16 + v3) * 16 + v4) with (((v1 * 16 + v2) * 16 + v3) * 16 + v4) by lia.
+  split; [apply uesc; assumption|]. split; [lia|]. splits; auto; congruence.
+Qed.
+
+Lemma unescape_in : forall e, unescape_char e <> 0 -> In (e, unescape_char e) dialect_escapes.
+Proof.
+  intro e. unfold unescape_char, escape_table_full, dialect_escapes. cbn [unescape_char_in].
+  repeat match goal with
+  | |- context [if ?a =? e then _ else _] =>
+      destruct (N.eqb_spec a e) as [<-|];
+      [intros _; cbn [In]; repeat (first [left; reflexivity | right])|]
+  end.
+  intro X. congruence.
+Qed.
+
+Lemma quoted_plain_step : forall cf f q cp acc s c,
+  cur s = Some c -> c <> q -> c <> 0 -> c <> 92 ->
+  quoted_loop cf (S f) q cp acc s = quoted_loop cf f q cp (acc ++ [c]) (move s).
+Proof.
+  intros cf f q cp acc s c C A B D. cbn [quoted_loop].
+  rewrite (current_some _ _ C), (eqb_false _ _ A), (eqb_false _ _ B), (eqb_false _ _ D). reflexivity.
+Qed.
+
+Lemma high_range : forall u, is_high_surrogate u = true -> 0xD800 <= u < 0xDC00.
+Proof.
+  intros u H. unfold is_high_surrogate in H. apply andb_prop in H as [A B].
+  apply N.leb_le in A. apply N.ltb_lt in B. lia.
+Qed.
+Lemma low_range : forall u, is_low_surrogate u = true -> 0xDC00 <= u < 0xE000.
+Proof.
+  intros u H. unfold is_low_surrogate in H. apply andb_prop in H as [A B].
+  apply N.leb_le in A. apply N.ltb_lt in B. lia.
+Qed.
+Lemma not_surrogate : forall u, is_high_surrogate u = false -> is_low_surrogate u = false ->
+  is_surrogate u = false.
+Proof.
+  intros u H L. unfold is_high_surrogate, is_low_surrogate, is_surrogate in *.
+  destruct (0xD800 <=? u) eqn:A; destruct (u <? 0xDC00) eqn:B; destruct (0xDC00 <=? u) eqn:C;
+    destruct (u <? 0xE000) eqn:D; cbn in *; try reflexivity; try discriminate.
+  apply N.ltb_ge in B. apply N.leb_gt in C. lia.
+Qed.
+
+Lemma high_bits : forall h, 0xD800 <= h < 0xDC00 -> N.land h 0x3FF = h - 0xD800 /\ h - 0xD800 < 1024.
+Proof.
+  intros h Hh. assert (H16 : h < 2 ^ N.of_nat 16) by (simpl; lia).
+  pose proof (all_below_pow2_spec 16 _ high_sweep h H16) as E. unfold high_check in E.
+  rewrite (range_high h Hh) in E. apply andb_prop in E as [E1 E2].
+  apply N.eqb_eq in E1. apply N.ltb_lt in E2. auto.
+Qed.
+Lemma low_bits : forall l, 0xDC00 <= l < 0xE000 -> N.land l 0x3FF = l - 0xDC00 /\ l - 0xDC00 < 1024.
+Proof.
+  intros l Hl. assert (H16 : l < 2 ^ N.of_nat 16) by (simpl; lia).
+  pose proof (all_below_pow2_spec 16 _ low_sweep l H16) as E. unfold low_check in E.
+  rewrite (range_low l Hl) in E. apply andb_prop in E as [E12 _]. apply andb_prop in E12 as [E1 E2].
+  apply N.eqb_eq in E1. apply N.ltb_lt in E2. auto.
+Qed.
+
+(* the code point the model computes for a low surrogate *)
+Lemma low_value : forall hi l, hi < 1024 -> 0xDC00 <= l < 0xE000 ->
+  encode_codepoint (wrapN 32 (0x10000 + N.lor (N.shiftl hi 10) (N.land l 0x3FF)))
+  = utf8_encode (pair_codepoint (0xD800 + hi) l).
+Proof.
+  intros hi l Hh Hl. destruct (low_bits l Hl) as [E B]. rewrite E, lor_shift_add by assumption.
+  unfold wrapN. rewrite N.land_ones.
+  rewrite N.mod_small by (change (2 ^ 32) with 4294967296; lia).
+  rewrite encode_codepoint_correct by lia.
+  f_equal. unfold pair_codepoint. lia.
+Qed.
+
+Lemma quoted_loop_inv : forall cf q, (q = 34 \/ q = 39) ->
+  forall n fuel cp acc s i str s', (fuel <= n)%nat ->
+  good s -> stream s = i -> bytes256 i -> hi_sur cp < 1024 ->
+  quoted_loop cf fuel q cp acc s = (Ok, str, s') ->
+  exists body out r, i = body ++ q :: r /\ dchars cf q (hi_sur cp) body out /\ str = acc ++ out /\
+     good s' /\ stream s' = r /\ cur s' = None /\ found s' = found s.
+Proof.
+  intros cf q HQ.
+  assert (Q0 : 0 <> q) by (destruct HQ; lia).
+  assert (Q117 : 117 <> q) by (destruct HQ; lia).
+  induction n as [|n IH]; intros fuel cp acc s i str s' LE G S B HI H;
+    (destruct fuel as [|fuel]; [discriminate H|]); [lia|].
+  cbn [quoted_loop] in H.
+  destruct (cur_cases s i G S) as [(s1 & E & _)|(c & t & s1 & -> & NZ & E & G1 & S1 & C1 & F1 & _)];
+    rewrite E in H.
+  { rewrite (eqb_false _ _ Q0) in H. change (0 =? 0) with true in H. discriminate H. }
+  destruct (move_cons s1 c t G1 C1 S1) as (G2 & S2 & C2 & F2).
+  pose proof (bytes256_tl _ _ B) as B2.
+  destruct (N.eqb_spec c q) as [->|NQ].
+  { injection H as <- <-. exists [], [], t. rewrite app_nil_r.
+    split; [reflexivity|]. split; [constructor|]. splits; auto; congruence. }
+  rewrite (eqb_false _ _ NZ) in H.
+  destruct (N.eqb_spec c 92) as [->|N92].
+  - (* backslash *)
+    destruct (cur_cases (move s1) t G2 S2)
+      as [(s3 & E3 & _)|(c2 & t2 & s3 & -> & NZ2 & E3 & G3 & S3 & C3 & F3 & _)]; rewrite E3 in H.
+    { change (0 =? 0) with true in H. discriminate H. }
+    rewrite (eqb_false _ _ NZ2) in H.
+    destruct (move_cons s3 c2 t2 G3 C3 S3) as (G4 & S4 & C4 & F4).
+    pose proof (bytes256_tl _ _ B2) as B4.
+    destruct (N.eqb_spec c2 117) as [->|N117].
+    + destruct (decode_unicode cf) eqn:DU.
+      * (* decoded \uXXXX *)
+        destruct (parse_hex4 4 0 (move s3)) as [[e u] s5] eqn:EH.
+        destruct e; try discriminate H.
+        destruct (parse_hex4_inv (move s3) t2 u s5 G4 S4 B4 EH)
+          as (tu & t5 & -> & UE & U16 & G5 & S5 & C5 & F5).
+        pose proof (bytes256_app_r _ _ B4) as B5.
+        assert (FF : found s5 = found s) by congruence.
+        unfold cp_append in H.
+        destruct (is_high_surrogate u) eqn:HS.
+        -- pose proof (high_range u HS) as HR. destruct (high_bits u HR) as [HB1 HB2].
+           destruct (IH fuel {| hi_sur := N.land u 0x3FF; cp_val := cp_val cp |} acc s5 t5 str s'
+                        ltac:(lia) G5 S5 B5 ltac:(cbn [hi_sur]; lia) H)
+             as (body & out & r & -> & DC & -> & G' & S' & C' & F').
+           cbn [hi_sur] in DC. rewrite HB1 in DC.
+           exists ((92 :: 117 :: tu) ++ body), out, r.
+           split; [cbn [app]; rewrite <- app_assoc; reflexivity|].
+           split; [apply dc_u_high with (h := u); assumption|]. splits; auto; congruence.
+        -- destruct (is_low_surrogate u) eqn:LS.
+           ++ pose proof (low_range u LS) as LR.
+              cbv iota in H. cbn [cp_val hi_sur] in H. rewrite (low_value _ _ HI LR) in H.
+              match type of H with quoted_loop _ _ _ ?cp' _ _ = _ =>
+                destruct (IH fuel cp' _ s5 t5 str s' ltac:(lia) G5 S5 B5 HI H)
+                  as (body & out & r & -> & DC & -> & G' & S' & C' & F') end.
+              cbn [hi_sur] in DC.
+              exists ((92 :: 117 :: tu) ++ body), (utf8_encode (pair_codepoint (0xD800 + hi_sur cp) u) ++ out), r.
+              split; [cbn [app]; rewrite <- app_assoc; reflexivity|].
+              split; [apply dc_u_low; assumption|]. rewrite <- app_assoc. splits; auto; congruence.
+           ++ pose proof (not_surrogate u HS LS) as NS.
+              cbv iota in H. cbn [cp_val hi_sur] in H.
+              rewrite encode_codepoint_correct in H by lia.
+              match type of H with quoted_loop _ _ _ ?cp' _ _ = _ =>
+                destruct (IH fuel cp' _ s5 t5 str s' ltac:(lia) G5 S5 B5 HI H)
+                  as (body & out & r & -> & DC & -> & G' & S' & C' & F') end.
+              cbn [hi_sur] in DC.
+              exists ((92 :: 117 :: tu) ++ body), (utf8_encode u ++ out), r.
+              split; [cbn [app]; rewrite <- app_assoc; reflexivity|].
+              split; [apply dc_u_scalar; assumption|]. rewrite <- app_assoc. splits; auto; congruence.
+      * (* \u copied verbatim: the backslash now, the u as an ordinary character *)
+        destruct fuel as [|f]; [discriminate H|].
+        rewrite (quoted_plain_step cf f q cp (acc ++ [92]) s3 117 C3 Q117 ltac:(lia) ltac:(lia)) in H.
+        destruct (IH f cp _ (move s3) t2 str s' ltac:(lia) G4 S4 B4 HI H)
+          as (body & out & r & -> & DC & -> & G' & S' & C' & F').
+        exists (92 :: 117 :: body), (92 :: 117 :: out), r.
+        split; [reflexivity|]. split; [apply dc_u_raw; assumption|].
+        rewrite <- !app_assoc. splits; auto; congruence.
+    + (* two-character escape *)
+      destruct (N.eqb_spec (unescape_char c2) 0) as [UZ|UZ]; [discriminate H|].
+      destruct (IH fuel cp _ (move s3) t2 str s' ltac:(lia) G4 S4 B4 HI H)
+        as (body & out & r & -> & DC & -> & G' & S' & C' & F').
+      exists (92 :: c2 :: body), (unescape_char c2 :: out), r.
+      split; [reflexivity|]. split; [apply dc_esc; [apply unescape_in; exact UZ|assumption]|].
+      rewrite <- app_assoc. splits; auto; congruence.
+  - (* verbatim byte *)
+    destruct (IH fuel cp _ (move s1) t str s' ltac:(lia) G2 S2 B2 HI H)
+      as (body & out & r & -> & DC & -> & G' & S' & C' & F').
+    exists (c :: body), (c :: out), r.
+    split; [reflexivity|]. split; [apply dc_plain; assumption|].
+    rewrite <- app_assoc. splits; auto; congruence.
+Qed.
+
+(* the whole string, entered with the opening quote latched *)
+Lemma parse_quoted_string_inv : forall cf fuel s q i str s',
+  (q = 34 \/ q = 39) -> good s -> cur s = Some q -> stream s = q :: i -> bytes256 i ->
+  parse_quoted_string cf fuel s = (Ok, str, s') ->
+  exists t r, q :: i = t ++ r /\ dstring cf t str /\
+    good s' /\ stream s' = r /\ cur s' = None /\ found s' = found s.
+Proof.
+  intros cf fuel s q i str s' HQ G C S B H.
+  unfold parse_quoted_string in H. rewrite (current_some _ _ C) in H.
+  destruct (move_cons s q i G C S) as (G2 & S2 & C2 & F2).
+  destruct (quoted_loop_inv cf q HQ fuel fuel cp_init [] (move s) i str s' (le_n _) G2 S2 B
+              ltac:(cbn; lia) H) as (body & out & r & -> & DC & -> & G' & S' & C' & F').
+  exists ([q] ++ body ++ [q]), r.
+  split; [cbn [app]; rewrite <- app_assoc; reflexivity|].
+  split; [exists q, body; auto|]. splits; auto; congruence.
+Qed.
+
+(* ------------------------------------------------------------------------------------- *)
+(* keys *)
+
+Lemma non_quoted_loop_inv : forall fuel acc c s i str s',
+  good s -> cur s = Some c -> stream s = c :: i -> non_quoted_loop fuel acc c s = (Ok, str, s') ->
+  exists k r, i = k ++ r /\ Forall (fun x => can_be_in_non_quoted_string x = true) k /\
+    str = acc ++ c :: k /\ post s' r /\ found s' = found s.
+Proof.
+  induction fuel as [|fuel IH]; intros acc c s i str s' G C S H; [discriminate H|].
+  cbn [non_quoted_loop] in H.
+  destruct (move_cons s c i G C S) as (G2 & S2 & C2 & F2).
+  destruct (cur_cases (move s) i G2 S2)
+    as [(s1 & E & A1 & I1 & _ & F1 & _)|(c' & t & s1 & -> & NZ & E & G1 & S1 & C1 & F1 & _)];
+    rewrite E in H.
+  { change (can_be_in_non_quoted_string 0) with false in H. injection H as <- <-.
+    exists [], i. split; [reflexivity|]. split; [constructor|]. split; [reflexivity|].
+    split; [right; split; assumption|congruence]. }
+  destruct (can_be_in_non_quoted_string c') eqn:K.
+  - destruct (IH _ c' s1 t str s' G1 C1 S1 H) as (k & r & -> & FA & -> & P & F').
+    exists (c' :: k), r. split; [reflexivity|]. split; [constructor; assumption|].
+    rewrite <- app_assoc. split; [reflexivity|]. split; [exact P|congruence].
+  - injection H as <- <-. exists [], (c' :: t).
+    split; [reflexivity|]. split; [constructor|]. split; [reflexivity|].
+    split; [left; split; assumption|congruence].
+Qed.
+
+Lemma is_quote_cases : forall c, is_quote c = true -> c = 34 \/ c = 39.
+Proof.
+  intros c H. unfold is_quote in H. apply orb_prop in H as [H|H]; apply N.eqb_eq in H; auto.
+Qed.
+
+Lemma parse_key_inv : forall cf fuel s i key s',
+  good s -> stream s = i -> bytes256 i -> parse_key cf fuel s = (Ok, key, s') ->
+  exists t r, i = t ++ r /\ dkey cf t key /\ post s' r /\ found s' = found s.
+Proof.
+  intros cf fuel s i key s' G S B H. unfold parse_key in H.
+  destruct (cur_cases s i G S)
+    as [(s1 & E & _ & _ & _ & _ & C1)|(c & t & s1 & -> & NZ & E & G1 & S1 & C1 & F1 & _)];
+    rewrite E in H.
+  { change (is_quote 0) with false in H. cbv iota in H. unfold parse_non_quoted_string in H.
+    rewrite (current_some _ _ C1) in H. change (can_be_in_non_quoted_string 0) with false in H.
+    discriminate H. }
+  destruct (is_quote c) eqn:Q.
+  - destruct (parse_quoted_string_inv cf fuel s1 c t key s' (is_quote_cases c Q) G1 C1 S1
+                (bytes256_tl _ _ B) H) as (tk & r & EQ & DS & G' & S' & C' & F').
+    exists tk, r. split; [exact EQ|]. split; [left; exact DS|].
+    split; [left; split; assumption|congruence].
+  - unfold parse_non_quoted_string in H. rewrite (current_some _ _ C1) in H.
+    destruct (can_be_in_non_quoted_string c) eqn:K; [|discriminate H].
+    destruct (non_quoted_loop_inv fuel [] c s1 t key s' G1 C1 S1 H) as (k & r & -> & FA & -> & P & F').
+    exists (c :: k), r. split; [reflexivity|].
+    split; [right; split; [discriminate|split; [constructor; assumption|reflexivity]]|].
+    split; [exact P|congruence].
+Qed.
+
+(* ------------------------------------------------------------------------------------- *)
+(* numbers *)
+
+Lemma scan_number_inv : forall cf n acc s i buf s',
+  good s -> stream s = i -> scan_number cf n acc s = (buf, s') ->
+  exists t r, i = t ++ r /\ Forall (fun c => can_be_in_number cf c = true) t /\ buf = acc ++ t /\
+    (length t <= n)%nat /\ found s' = found s /\
+    ((length t = n /\ good s' /\ stream s' = r) \/
+     ((length t < n)%nat /\ post s' r /\ lastc s' = hd 0 r /\ can_be_in_number cf (hd 0 r) = false)).
+Proof.
+  intros cf. induction n as [|n IH]; intros acc s i buf s' G S H.
+  - cbn [scan_number] in H. injection H as <- <-. exists [], i. rewrite app_nil_r.
+    split; [reflexivity|]. split; [constructor|]. split; [reflexivity|]. split; [cbn; lia|].
+    split; [reflexivity|]. left. auto.
+  - cbn [scan_number] in H.
+    destruct (cur_cases s i G S)
+      as [(s1 & E & A1 & I1 & L1 & F1 & _)|(c & t & s1 & -> & NZ & E & G1 & S1 & C1 & F1 & L1)];
+      rewrite E in H.
+    { rewrite (not_numchar cf 0) in H by auto. injection H as <- <-.
+      exists [], i. rewrite app_nil_r.
+      split; [reflexivity|]. split; [constructor|]. split; [reflexivity|]. split; [cbn; lia|].
+      split; [exact F1|]. right. cbn [length].
+      split; [lia|]. split; [right; split; assumption|].
+      destruct I1 as [->|[r ->]]; cbn [hd]; split; auto; apply not_numchar; auto. }
+    destruct (can_be_in_number cf c) eqn:K.
+    + destruct (move_cons s1 c t G1 C1 S1) as (G2 & S2 & C2 & F2).
+      destruct (IH _ (move s1) t buf s' G2 S2 H) as (t' & r & -> & FA & -> & LN & F' & D).
+      exists (c :: t'), r. split; [reflexivity|]. split; [constructor; assumption|].
+      rewrite <- app_assoc. split; [reflexivity|]. cbn [length]. split; [lia|].
+      split; [congruence|]. destruct D as [(D1 & D2)|(D1 & D2)]; [left|right]; split; auto; lia.
+    + injection H as <- <-. exists [], (c :: t). rewrite app_nil_r.
+      split; [reflexivity|]. split; [constructor|]. split; [reflexivity|]. split; [cbn; lia|].
+      split; [exact F1|]. right. cbn [length hd].
+      split; [lia|]. split; [left; split; assumption|]. auto.
+Qed.
+
+Lemma parse_number_nil : forall cf, jv_of_number cf (parse_number cf []) = None.
+Proof.
+  intro cf. unfold parse_number. cbn [hd0].
+  change ((0 =? 110) || (0 =? 78)) with false. change ((0 =? 105) || (0 =? 73)) with false.
+  rewrite !andb_false_r. reflexivity.
+Qed.
+
+Lemma jv_of_number_is_number : forall cf n v, jv_of_number cf n = Some v -> is_number v = true.
+Proof.
+  intros cf n v H. destruct n; cbn [jv_of_number] in H; try discriminate H; injection H as <-;
+    try reflexivity.
+  unfold jv_of_double. destruct (use_double cf); [|reflexivity].
+  match goal with |- context [if ?b then _ else _] => destruct b end; reflexivity.
+Qed.
+
+Lemma parse_numeric_value_inv : forall cf s i v s',
+  good s -> stream s = i -> parse_numeric_value cf s = (Ok, v, s') ->
+  exists t r, i = t ++ r /\ t <> [] /\ (length t <= 63)%nat /\
+    Forall (fun c => can_be_in_number cf c = true) t /\
+    jv_of_number cf (parse_number cf t) = Some v /\
+    post s' r /\ lastc s' = hd 0 r /\ number_boundary cf t r /\ found s' = found s.
+Proof.
+  intros cf s i v s' G S H. unfold parse_numeric_value in H.
+  destruct (scan_number cf 63 [] s) as [buf s2] eqn:ES.
+  destruct (scan_number_inv cf 63 [] s i buf s2 G S ES) as (t & r & -> & FA & -> & LN & F2 & D).
+  cbn [app] in H.
+  destruct (jv_of_number cf (parse_number cf t)) as [v0|] eqn:JV; [|discriminate H].
+  assert (TN : t <> []).
+  { intros ->. rewrite parse_number_nil in JV. discriminate JV. }
+  exists t, r. split; [reflexivity|]. split; [exact TN|]. split; [exact LN|]. split; [exact FA|].
+  destruct D as [(D1 & G2 & S2)|(D1 & P2 & L2 & K2)].
+  - rewrite D1 in H. cbn [Nat.eqb] in H.
+    destruct (peek s2 r G2 S2) as (s3 & E3 & F3 & P3 & L3 & C3). rewrite E3 in H. cbn [snd] in H.
+    injection H as <- <-. splits; auto; [left; exact D1|congruence].
+  - assert (X : Nat.eqb (length t) 63 = false) by (apply Nat.eqb_neq; lia). rewrite X in H.
+    injection H as <- <-. splits; auto.
+    right. destruct r; [exact I|exact K2].
+Qed.
+
+(* ------------------------------------------------------------------------------------- *)
+(* keywords *)
+
+Lemma skip_keyword_inv : forall kw s i s',
+  good s -> stream s = i -> skip_keyword kw s = (Ok, s') ->
+  exists r, i = kw ++ r /\ good s' /\ stream s' = r /\ found s' = found s.
+Proof.
+  induction kw as [|k kw IH]; intros s i s' G S H.
+  - cbn [skip_keyword] in H. injection H as <-. exists i. auto.
+  - cbn [skip_keyword] in H.
+    destruct (cur_cases s i G S) as [(s1 & E & _)|(c & t & s1 & -> & NZ & E & G1 & S1 & C1 & F1 & _)];
+      rewrite E in H.
+    { change (0 =? 0) with true in H. discriminate H. }
+    rewrite (eqb_false _ _ NZ) in H.
+    destruct (N.eqb_spec k c) as [->|NK]; cbn [negb] in H; [|discriminate H].
+    destruct (move_cons s1 c t G1 C1 S1) as (G2 & S2 & C2 & F2).
+    destruct (IH (move s1) t s' G2 S2 H) as (r & -> & G' & S' & F').
+    exists r. splits; auto; congruence.
+Qed.
+
+(* ------------------------------------------------------------------------------------- *)
+(* containers *)
+
+Ltac b256 :=
+  match goal with
+  | H : bytes256 ?l |- bytes256 ?l => exact H
+  | H : bytes256 (_ ++ _) |- _ => apply bytes256_app_r in H; b256
+  | H : bytes256 (_ :: _) |- _ => apply bytes256_tl in H; b256
+  end.
+
+Ltac lst := repeat (progress (cbn [app]; rewrite <- ?app_assoc)); try reflexivity.
+
+Lemma delements_prepend : forall cf d w t vs,
+  dws cf w -> delements cf d t vs -> delements cf d (w ++ t) vs.
+Proof.
+  intros cf d w t vs W D. destruct D as [d w1 t v w2 W1 V W2|d w1 t v w2 r vs W1 V W2 R].
+  - rewrite app_assoc. apply de_one; auto using dws_app.
+  - rewrite app_assoc. apply de_cons; auto using dws_app.
+Qed.
+
+Lemma dmembers_prepend : forall cf d w t ms,
+  dws cf w -> dmembers cf d t ms -> dmembers cf d (w ++ t) ms.
+Proof.
+  intros cf d w t ms W D.
+  destruct D as [d w1 kt k w2 w3 t v w4 W1 K W2 W3 V W4|d w1 kt k w2 w3 t v w4 r ms W1 K W2 W3 V W4 R].
+  - rewrite app_assoc. apply dm_one; auto using dws_app.
+  - rewrite app_assoc. apply dm_cons; auto using dws_app.
+Qed.
+
+(* what the induction on the nesting budget provides for the values inside a container *)
+Definition pv_sound (cf : cfg) (d : nat) (pv : filter -> ps -> code * jv * ps) : Prop :=
+  forall s i v s', good s -> stream s = i -> bytes256 i -> pv None s = (Ok, v, s') ->
+  exists w t r, i = w ++ t ++ r /\ dws cf w /\ dvalue cf d t v /\ post s' r /\ found s' = true /\
+    (is_number v = true -> lastc s' = hd 0 r /\ number_boundary cf t r).
+
+Lemma array_loop_inv : forall cf d pv sv, pv_sound cf d pv ->
+  forall fuel acc s i v s', good s -> stream s = i -> bytes256 i ->
+  array_loop cf pv sv fuel None acc s = (Ok, v, s') ->
+  exists te vs r, i = te ++ 93 :: r /\ delements cf d te vs /\ v = JArr (acc ++ vs) /\
+    good s' /\ stream s' = r /\ cur s' = None /\ found s' = true.
+Proof.
+  intros cf d pv sv HP. induction fuel as [|fuel IH]; intros acc s i v s' G S B H; [discriminate H|].
+  rewrite array_loop_S in H. cbn [f_allow] in H.
+  destruct (pv None s) as [[e v1] s1] eqn:E1. destruct e; try discriminate H.
+  destruct (HP s i v1 s1 G S B E1) as (w1 & t1 & r1 & -> & W1 & V1 & P1 & _).
+  unfold arr_step in H.
+  destruct (skip_spaces cf fuel s1) as [e s2] eqn:E2. destruct e; try discriminate H.
+  destruct (post_skip cf fuel s1 r1 s2 P1 E2) as [G1 S1].
+  destruct (skip_spaces_inv cf fuel s1 r1 s2 G1 S1 E2)
+    as (w2 & c & r2 & -> & W2 & G2 & S2 & C2 & NZ & _ & _ & F2 & _).
+  destruct (N.eq_dec c 93) as [->|N93].
+  - destruct (eat_yes s2 93 r2 G2 S2 ltac:(lia)) as (s3 & E3 & G3 & S3 & C3 & F3). rewrite E3 in H.
+    injection H as <- <-. exists (w1 ++ t1 ++ w2), [v1], r2.
+    split; [lst|]. split; [apply de_one; assumption|]. splits; auto; congruence.
+  - rewrite (eat_no_some s2 c 93 C2 N93) in H. cbv beta iota in H.
+    destruct (N.eq_dec c 44) as [->|N44].
+    + destruct (eat_yes s2 44 r2 G2 S2 ltac:(lia)) as (s3 & E3 & G3 & S3 & C3 & F3). rewrite E3 in H.
+      assert (B3 : bytes256 r2) by (clear - B; b256).
+      destruct (IH _ s3 r2 v s' G3 S3 B3 H) as (te & vs & r & -> & DE & -> & R).
+      exists (w1 ++ t1 ++ w2 ++ [44] ++ te), (v1 :: vs), r.
+      split; [lst|]. split; [apply de_cons; assumption|].
+      rewrite <- app_assoc. split; [reflexivity|exact R].
+    + rewrite (eat_no_some s2 c 44 C2 N44) in H. discriminate H.
+Qed.
+
+Lemma object_loop_inv : forall cf d pv sv, pv_sound cf d pv ->
+  forall fuel acc s i v s', good s -> stream s = i -> bytes256 i ->
+  object_loop cf pv sv fuel None acc s = (Ok, v, s') ->
+  exists tm ms r, i = tm ++ 125 :: r /\ dmembers cf d tm ms /\ v = JObj (obj_den ms acc) /\
+    good s' /\ stream s' = r /\ cur s' = None /\ found s' = true.
+Proof.
+  intros cf d pv sv HP. induction fuel as [|fuel IH]; intros acc s i v s' G S B H; [discriminate H|].
+  rewrite object_loop_S in H.
+  destruct (parse_key cf fuel s) as [[e key] s1] eqn:E1. destruct e; try discriminate H.
+  destruct (parse_key_inv cf fuel s i key s1 G S B E1) as (kt & r1 & -> & DK & P1 & _).
+  destruct (skip_spaces cf fuel s1) as [e s2] eqn:E2. destruct e; try discriminate H.
+  destruct (post_skip cf fuel s1 r1 s2 P1 E2) as [G1 S1].
+  destruct (skip_spaces_inv cf fuel s1 r1 s2 G1 S1 E2)
+    as (w2 & c & r2 & -> & W2 & G2 & S2 & C2 & NZ & _).
+  destruct (N.eq_dec c 58) as [->|N58].
+  2:{ rewrite (eat_no_some s2 c 58 C2 N58) in H. discriminate H. }
+  destruct (eat_yes s2 58 r2 G2 S2 ltac:(lia)) as (s3 & E3 & G3 & S3 & C3 & _). rewrite E3 in H.
+  cbn [negb f_member f_allow] in H.
+  assert (B3 : bytes256 r2) by (clear - B; b256).
+  destruct (pv None s3) as [[e v1] s4] eqn:E4. destruct e; try discriminate H.
+  destruct (HP s3 r2 v1 s4 G3 S3 B3 E4) as (w3 & t & r4 & -> & W3 & V & P4 & _).
+  unfold obj_after in H.
+  destruct (skip_spaces cf fuel s4) as [e s5] eqn:E5. destruct e; try discriminate H.
+  destruct (post_skip cf fuel s4 r4 s5 P4 E5) as [G4 S4].
+  destruct (skip_spaces_inv cf fuel s4 r4 s5 G4 S4 E5)
+    as (w4 & c5 & r5 & -> & W4 & G5 & S5 & C5 & NZ5 & _ & _ & F5 & _).
+  destruct (N.eq_dec c5 125) as [->|N125].
+  - destruct (eat_yes s5 125 r5 G5 S5 ltac:(lia)) as (s6 & E6 & G6 & S6 & C6 & F6). rewrite E6 in H.
+    injection H as <- <-.
+    exists ([] ++ kt ++ w2 ++ [58] ++ w3 ++ t ++ w4), [(key, v1)], r5.
+    split; [lst|]. split; [apply dm_one; auto; constructor|]. splits; auto; congruence.
+  - rewrite (eat_no_some s5 c5 125 C5 N125) in H. cbv beta iota in H.
+    destruct (N.eq_dec c5 44) as [->|N44].
+    2:{ rewrite (eat_no_some s5 c5 44 C5 N44) in H. discriminate H. }
+    destruct (eat_yes s5 44 r5 G5 S5 ltac:(lia)) as (s6 & E6 & G6 & S6 & C6 & _). rewrite E6 in H.
+    cbn [negb] in H.
+    destruct (skip_spaces cf fuel s6) as [e s7] eqn:E7. destruct e; try discriminate H.
+    destruct (skip_spaces_inv cf fuel s6 r5 s7 G6 S6 E7)
+      as (w5 & c7 & r7 & -> & W5 & G7 & S7 & _).
+    assert (B7 : bytes256 (c7 :: r7)) by (clear - B3; b256).
+    destruct (IH _ s7 (c7 :: r7) v s' G7 S7 B7 H) as (tm & ms & r & EQ & DM & -> & R).
+    exists ([] ++ kt ++ w2 ++ [58] ++ w3 ++ t ++ w4 ++ [44] ++ (w5 ++ tm)), ((key, v1) :: ms), r.
+    split; [rewrite EQ; lst|].
+    split; [apply dm_cons; auto; [constructor|apply dmembers_prepend; assumption]|].
+    split; [reflexivity|exact R].
+Qed.
+
+(* ------------------------------------------------------------------------------------- *)
+(* parse_variant *)
+
+Lemma pv_body_sound : forall cf fuel pv' sv' sk d, pv_sound cf d pv' ->
+  forall deep s i v s', good s -> stream s = i -> bytes256 i ->
+  pv_body cf fuel deep pv' sv' sk None s = (Ok, v, s') ->
+  exists w t r, i = w ++ t ++ r /\ dws cf w /\
+    dvalue cf (if deep then 0 else S d)%nat t v /\ post s' r /\ found s' = true /\
+    (is_number v = true -> lastc s' = hd 0 r /\ number_boundary cf t r).
+Proof.
+  intros cf fuel pv' sv' sk d HP deep s i v s' G S B H. unfold pv_body in H.
+  destruct (skip_spaces cf fuel s) as [e s1] eqn:E1. destruct e; try discriminate H.
+  destruct (skip_spaces_inv cf fuel s i s1 G S E1)
+    as (w & c & r0 & -> & W & G1 & S1 & C1 & NZ & NSP & _ & F1 & _).
+  rewrite (current_some _ _ C1) in H.
+  assert (B1 : bytes256 r0) by (clear - B; b256).
+  destruct (N.eqb_spec c 91) as [->|N91].
+  { (* array *)
+    cbn [f_allow_array] in H. destruct deep; [discriminate H|].
+    destruct (move_cons s1 91 r0 G1 C1 S1) as (G2 & S2 & C2 & _).
+    destruct (skip_spaces cf fuel (move s1)) as [e s3] eqn:E3. destruct e; try discriminate H.
+    destruct (skip_spaces_inv cf fuel (move s1) r0 s3 G2 S2 E3)
+      as (w2 & c2 & r2 & -> & W2 & G3 & S3 & C3 & NZ3 & _ & _ & F3 & _).
+    destruct (N.eq_dec c2 93) as [->|N93].
+    - destruct (eat_yes s3 93 r2 G3 S3 ltac:(lia)) as (s4 & E4 & G4 & S4 & C4 & F4). rewrite E4 in H.
+      injection H as <- <-. exists w, ([91] ++ w2 ++ [93]), r2.
+      split; [lst|]. split; [exact W|]. split; [apply dv_arr_empty; exact W2|].
+      split; [left; auto|]. split; [congruence|discriminate].
+    - rewrite (eat_no_some s3 c2 93 C3 N93) in H. cbv beta iota in H.
+      assert (B3 : bytes256 (c2 :: r2)) by (clear - B1; b256).
+      destruct (array_loop_inv cf d pv' sv' HP fuel [] s3 (c2 :: r2) v s' G3 S3 B3 H)
+        as (te & vs & r & EQ & DE & -> & G' & S' & C' & F').
+      exists w, ([91] ++ (w2 ++ te) ++ [93]), r.
+      split; [rewrite EQ; lst|]. split; [exact W|].
+      split; [apply dv_arr; apply delements_prepend; assumption|].
+      split; [left; auto|]. split; [exact F'|discriminate]. }
+  destruct (N.eqb_spec c 123) as [->|N123].
+  { (* object *)
+    cbn [f_allow_object] in H. destruct deep; [discriminate H|].
+    destruct (move_cons s1 123 r0 G1 C1 S1) as (G2 & S2 & C2 & _).
+    destruct (skip_spaces cf fuel (move s1)) as [e s3] eqn:E3. destruct e; try discriminate H.
+    destruct (skip_spaces_inv cf fuel (move s1) r0 s3 G2 S2 E3)
+      as (w2 & c2 & r2 & -> & W2 & G3 & S3 & C3 & NZ3 & _ & _ & F3 & _).
+    destruct (N.eq_dec c2 125) as [->|N125].
+    - destruct (eat_yes s3 125 r2 G3 S3 ltac:(lia)) as (s4 & E4 & G4 & S4 & C4 & F4). rewrite E4 in H.
+      injection H as <- <-. exists w, ([123] ++ w2 ++ [125]), r2.
+      split; [lst|]. split; [exact W|]. split; [apply dv_obj_empty; exact W2|].
+      split; [left; auto|]. split; [congruence|discriminate].
+    - rewrite (eat_no_some s3 c2 125 C3 N125) in H. cbv beta iota in H.
+      assert (B3 : bytes256 (c2 :: r2)) by (clear - B1; b256).
+      destruct (object_loop_inv cf d pv' sv' HP fuel [] s3 (c2 :: r2) v s' G3 S3 B3 H)
+        as (tm & ms & r & EQ & DM & -> & G' & S' & C' & F').
+      exists w, ([123] ++ (w2 ++ tm) ++ [125]), r.
+      split; [rewrite EQ; lst|]. split; [exact W|].
+      split; [apply dv_obj; apply dmembers_prepend; assumption|].
+      split; [left; auto|]. split; [exact F'|discriminate]. }
+  unfold pv_scalar in H.
+  destruct (is_quote c) eqn:Q.
+  { (* string *)
+    cbn [f_allow_value] in H.
+    destruct (parse_quoted_string cf fuel s1) as [[e str] s2] eqn:E2. destruct e; try discriminate H.
+    injection H as <- <-.
+    destruct (parse_quoted_string_inv cf fuel s1 c r0 str s2 (is_quote_cases c Q) G1 C1 S1 B1 E2)
+      as (t & r & EQ & DS & G' & S' & C' & F').
+    exists w, t, r. split; [rewrite EQ; reflexivity|]. split; [exact W|].
+    split; [apply dv_str; exact DS|]. split; [left; auto|]. split; [congruence|discriminate]. }
+  destruct (N.eqb_spec c 116) as [->|N116].
+  { destruct (skip_keyword kw_true s1) as [e s2] eqn:E2. cbn [f_allow_value] in H.
+    injection H as -> <- <-.
+    destruct (skip_keyword_inv kw_true s1 _ s2 G1 S1 E2) as (r & EQ & G' & S' & F').
+    exists w, kw_true, r. split; [rewrite EQ; reflexivity|]. split; [exact W|].
+    split; [apply dv_true|]. split; [left; auto|]. split; [congruence|discriminate]. }
+  destruct (N.eqb_spec c 102) as [->|N102].
+  { destruct (skip_keyword kw_false s1) as [e s2] eqn:E2. cbn [f_allow_value] in H.
+    injection H as -> <- <-.
+    destruct (skip_keyword_inv kw_false s1 _ s2 G1 S1 E2) as (r & EQ & G' & S' & F').
+    exists w, kw_false, r. split; [rewrite EQ; reflexivity|]. split; [exact W|].
+    split; [apply dv_false|]. split; [left; auto|]. split; [congruence|discriminate]. }
+  destruct (N.eqb_spec c 110) as [->|N110].
+  { unfold lift in H. destruct (skip_keyword kw_null s1) as [e s2] eqn:E2.
+    injection H as -> <- <-.
+    destruct (skip_keyword_inv kw_null s1 _ s2 G1 S1 E2) as (r & EQ & G' & S' & F').
+    exists w, kw_null, r. split; [rewrite EQ; reflexivity|]. split; [exact W|].
+    split; [apply dv_null|]. split; [left; auto|]. split; [congruence|discriminate]. }
+  (* number *)
+  cbn [f_allow_value] in H.
+  destruct (parse_numeric_value_inv cf s1 (c :: r0) v s' G1 S1 H)
+    as (t & r & EQ & TN & LN & FA & JV & P & LC & NB & F').
+  exists w, t, r. split; [rewrite EQ; reflexivity|]. split; [exact W|].
+  split.
+  { apply dv_num. destruct t as [|c' t']; [congruence|]. cbn [app] in EQ. injection EQ as <- _.
+    unfold dnumber. cbn [hd]. splits; auto. }
+  split; [exact P|]. split; [congruence|]. intros _. auto.
+Qed.
+
+Theorem parse_variant_sound : forall cf fuel L, pv_sound cf L (parse_variant cf fuel L).
+Proof.
+  intros cf fuel. induction L as [|L IH]; intros s i v s' G S B H;
+    rewrite parse_variant_body in H.
+  - cbn [deepL pvL svL] in H.
+    refine (pv_body_sound cf fuel _ _ _ 0%nat _ true s i v s' G S B H).
+    intros s0 i0 v0 s0' _ _ _ X. discriminate X.
+  - cbn [deepL pvL svL] in H.
+    exact (pv_body_sound cf fuel _ _ _ L IH false s i v s' G S B H).
+Qed.
+
+(* ------------------------------------------------------------------------------------- *)
+(* Main theorem: whatever json_run accepts starts with a text of the dialect, and the document
+   is the value the dialect assigns to it.
+
+   The hypothesis [bytes256 i] (every element of the input is a byte) is the type invariant of
+   [bytes = list N]; without it the statement is false for a reason that has nothing to do with
+   the library: decode_hex works on the low 8 bits, so the "byte" 304 = 256 + '0' would pass for
+   a hex digit (see [sound_needs_bytes] below). *)
+
+Theorem dialect_sound : forall cf L i o,
+  bytes256 i ->
+  o = json_run cf None L i -> j_err o = Ok ->
+  exists w t rest, i = w ++ t ++ rest /\ dws cf w /\
+    (exists d, (d <= L)%nat /\ dvalue cf d t (j_doc o)) /\
+    dtrailing (j_doc o) rest.
+Proof.
+  intros cf L i o B -> H. unfold json_run in *.
+  destruct (parse_variant cf (json_fuel i) L None (ps_init i)) as [[e v] s] eqn:E.
+  cbn [j_err j_doc] in *.
+  destruct e; try discriminate H.
+  destruct (parse_variant_sound cf _ L _ i v s (good_init i) (stream_init i) B E)
+    as (w & t & r & -> & W & V & P & F & NB).
+  exists w, t, r. split; [reflexivity|]. split; [exact W|].
+  split; [exists L; split; [lia|exact V]|].
+  intro IN. destruct (NB IN) as [LC _]. rewrite IN, LC in H.
+  destruct r as [|c r]; [exact I|]. cbn [hd] in H.
+  destruct (N.eqb_spec c 0) as [->|NZ]; [left; reflexivity|].
+  destruct (is_space c); [right; reflexivity|]. cbn in H. discriminate H.
+Qed.
+
+(* the same with the text packaged as [dtext] *)
+Corollary dialect_sound_text : forall cf L i,
+  bytes256 i -> j_err (json_run cf None L i) = Ok ->
+  exists t rest, i = t ++ rest /\ dtext cf L t (j_doc (json_run cf None L i)) /\
+    dtrailing (j_doc (json_run cf None L i)) rest.
+Proof.
+  intros cf L i B H.
+  destruct (dialect_sound cf L i _ B eq_refl H) as (w & t & rest & -> & W & (d & DL & V) & T).
+  exists (w ++ t), rest. split; [rewrite app_assoc; reflexivity|].
+  split; [exists w, t, d; auto|exact T].
+Qed.
+
+(* the trailing rule makes the number token the longest run of number characters *)
+Lemma dtrailing_boundary : forall cf v t rest, is_number v = true -> dtrailing v rest ->
+  number_boundary cf t rest.
+Proof.
+  intros cf v t rest IN T. right. specialize (T IN). destruct rest as [|c r]; [exact I|].
+  apply not_numchar. destruct T as [->|T]; auto.
+Qed.
+
+(* an input that is not a list of bytes: 304 = 256 + '0' is taken for the hex digit 0, although
+   "\u<304>000" is not an escape of the dialect (hex_value 304 = None) *)
+Example sound_needs_bytes :
+  j_err (json_run default_cfg None 10 [34; 92; 117; 304; 48; 48; 48; 34]) = Ok /\
+  hex_value 304 = None.
+Proof. split; vm_compute; reflexivity. Qed.
+
+(* ------------------------------------------------------------------------------------- *)
+(* Corollaries *)
+
+(* comments only when enabled: without ARDUINOJSON_ENABLE_COMMENTS the insignificant bytes are
+   the four whitespace characters of the RFC *)
+Theorem comments_only_when_enabled : forall cf w,
+  enable_comments cf = false -> dws cf w -> Forall (fun c => is_space c = true) w.
+Proof.
+  intros cf w EC W. induction W as [|c w Hc W IH|b w E _ _ _ _|b w E _ _ _].
+  - constructor.
+  - constructor; assumption.
+  - congruence.
+  - congruence.
+Qed.
+
+Corollary comments_only_when_enabled_run : forall cf L i,
+  enable_comments cf = false -> bytes256 i -> j_err (json_run cf None L i) = Ok ->
+  exists w t rest, i = w ++ t ++ rest /\ Forall (fun c => is_space c = true) w /\
+    exists d, (d <= L)%nat /\ dvalue cf d t (j_doc (json_run cf None L i)).
+Proof.
+  intros cf L i EC B H.
+  destruct (dialect_sound cf L i _ B eq_refl H) as (w & t & rest & E & W & V & _).
+  exists w, t, rest. split; [exact E|]. split; [|exact V].
+  apply comments_only_when_enabled with (cf := cf); assumption.
+Qed.
+
+(* a container is closed by its bracket, a string by the quote that opened it: no text of the
+   dialect denotes a container or a string without being closed *)
+Theorem dvalue_closed : forall cf d t v, dvalue cf d t v ->
+  match v with
+  | JArr _ => exists body, t = [91] ++ body ++ [93]
+  | JObj _ => exists body, t = [123] ++ body ++ [125]
+  | JStr _ => exists q body, (q = 34 \/ q = 39) /\ t = [q] ++ body ++ [q]
+  | _ => True
+  end.
+Proof.
+  intros cf d t v H.
+  destruct H as [d|d|d|d t v N|d t s (q & body & HQ & -> & _)|d w _|d t vs _|d w _|d t ms _];
+    try exact I; try (eexists; reflexivity).
+  - destruct N as (_ & _ & _ & _ & _ & _ & JV). apply jv_of_number_is_number in JV.
+    destruct v; try exact I; discriminate JV.
+  - exists q, body. auto.
+Qed.
+
+(* ---- the RFC grammar is inside the dialect ---- *)
+
+Lemma ws_dws : forall cf w, ws w -> dws cf w.
+Proof.
+  intros cf w W. induction W as [|c w Hc W IH]; [constructor|].
+  apply dws_space; [rewrite <- is_ws_space; exact Hc|exact IH].
+Qed.
+
+Lemma uescape_shape : forall t u, uescape t u -> exists tu, t = 92 :: 117 :: tu.
+Proof. intros t u H. destruct H. eexists; reflexivity. Qed.
+
+Lemma jchars_dchars : forall cf, decode_unicode cf = true ->
+  forall body s, jchars body s -> forall hi, dchars cf 34 hi body s.
+Proof.
+  intros cf DU body s J. induction J as [|t1 b1 t2 b2 J1 J2 IH]; intro hi; [constructor|].
+  destruct J1 as [c C256 C32 C34 C92 | e c HIn | t u UE NS | ta tb h l U1 U2 Hh Hl].
+  - cbn [app]. apply dc_plain; auto. lia.
+  - cbn [app]. apply dc_esc; [|apply IH].
+    unfold dialect_escapes. cbn [In] in *. tauto.
+  - apply dc_u_scalar; auto.
+  - rewrite <- app_assoc.
+    apply dc_u_high with (h := h); auto.
+    replace (utf8_encode (pair_codepoint h l)) with (utf8_encode (pair_codepoint (0xD800 + (h - 0xD800)) l))
+      by (f_equal; f_equal; lia).
+    apply dc_u_low; auto.
+Qed.
+
+Lemma jstring_dstring : forall cf, decode_unicode cf = true ->
+  forall t s, jstring t s -> dstring cf t s.
+Proof.
+  intros cf DU t s (body & -> & J). exists 34, body. split; [auto|]. split; [reflexivity|].
+  apply jchars_dchars; assumption.
+Qed.
+
+Lemma jnumber_dnumber : forall cf t v, jnumber t -> num_den cf t v -> dnumber cf t v.
+Proof.
+  intros cf t v J (LN & JV). destruct (jnumber_chars cf t J) as [FA (c & r & -> & NS)].
+  unfold dnumber. cbn [hd].
+  assert (X : c <> 116 /\ c <> 102 /\ c <> 110).
+  { destruct NS as [->|D]; [lia|]. apply digit_range in D. lia. }
+  splits; auto; try tauto. discriminate.
+Qed.
+
+Lemma rfc_inside_dialect_all : forall cf, decode_unicode cf = true ->
+  (forall d t v, jvalueD (num_den cf) d t v -> dvalue cf d t v) /\
+  (forall d t vs, jelementsD (num_den cf) d t vs -> delements cf d t vs) /\
+  (forall d t ms, jmembersD (num_den cf) d t ms -> dmembers cf d t ms).
+Proof.
+  intros cf DU. apply jvalueD_mutind; intros.
+  - constructor.
+  - constructor.
+  - constructor.
+  - apply dv_num. apply jnumber_dnumber; assumption.
+  - apply dv_str. apply jstring_dstring; assumption.
+  - apply dv_arr_empty. apply ws_dws; assumption.
+  - apply dv_arr; assumption.
+  - apply dv_obj_empty. apply ws_dws; assumption.
+  - apply dv_obj; assumption.
+  - apply de_one; auto using ws_dws.
+  - apply de_cons; auto using ws_dws.
+  - apply dm_one; auto using ws_dws. left. apply jstring_dstring; assumption.
+  - apply dm_cons; auto using ws_dws. left. apply jstring_dstring; assumption.
+Qed.
+
+(* With ARDUINOJSON_DECODE_UNICODE (the default).  Without it the statement is false: the reader
+   copies \u escapes instead of decoding them, see [rfc_needs_decode_unicode]. *)
+Theorem rfc_inside_dialect : forall cf, decode_unicode cf = true ->
+  forall d t v, jvalueD (num_den cf) d t v -> dvalue cf d t v.
+Proof. intros cf DU. exact (proj1 (rfc_inside_dialect_all cf DU)). Qed.
+
+Definition no_decode_cfg : cfg :=
+  {| decode_unicode := false; enable_comments := false; enable_nan := false;
+     enable_inf := false; use_double := true |}.
+
+(* the six characters backslash u 0 0 4 1 between quotes: the RFC says they denote the letter A,
+   the reader built without DECODE_UNICODE returns the six characters themselves *)
+Example rfc_needs_decode_unicode :
+  j_doc (json_run no_decode_cfg None 10 [34; 92; 117; 48; 48; 52; 49; 34])
+  = JStr [92; 117; 48; 48; 52; 49].
+Proof. vm_compute. reflexivity. Qed.
+
+(* no trailing comma, no unclosed container or string: examples of the classification *)
+Example trailing_comma_rejected :
+  j_err (json_run default_cfg None 10 [91; 49; 44; 93]) = InvalidInput /\
+  j_err (json_run default_cfg None 10 [123; 34; 97; 34; 58; 49; 44; 125]) = InvalidInput /\
+  j_err (json_run default_cfg None 10 [91; 49; 44]) = IncompleteInput /\
+  j_err (json_run default_cfg None 10 [34; 97]) = IncompleteInput.
+Proof. vm_compute. auto. Qed.
+
+(* ------------------------------------------------------------------------------------- *)
+(* NaN / Infinity only when enabled.
+   A NaN VALUE can only come from the NaN spelling, hence only with ARDUINOJSON_ENABLE_NAN:
+   the arithmetic of parseNumber never produces one.  For Infinity the corresponding statement
+   about VALUES is false and is not what the library promises: a literal whose exponent exceeds
+   the range overflows to infinity ("1e999", see [overflow_gives_infinity]); what needs
+   ARDUINOJSON_ENABLE_INFINITY is the SPELLING ([number_spelling]). *)
+
+Local Open Scope Z_scope.
+
+Lemma shr_1_nonneg : forall mrs, 0 <= shr_m mrs -> 0 <= shr_m (shr_1 mrs).
+Proof.
+  intros [m r s] H. cbn [shr_m] in H. unfold shr_1.
+  destruct m as [|p|p]; [cbn; lia| |lia].
+  destruct p; cbn [shr_m]; lia.
+Qed.
+
+Lemma iter_pos_nonneg : forall p mrs, 0 <= shr_m mrs -> 0 <= shr_m (SpecFloat.iter_pos shr_1 p mrs).
+Proof.
+  induction p as [p IH|p IH|]; intros mrs H; cbn [SpecFloat.iter_pos].
+  - apply IH, IH, shr_1_nonneg, H.
+  - apply IH, IH, H.
+  - apply shr_1_nonneg, H.
+Qed.
+
+Lemma shr_nonneg : forall mrs e n, 0 <= shr_m mrs -> 0 <= shr_m (fst (shr mrs e n)).
+Proof.
+  intros mrs e n H. unfold shr. destruct n; cbn [fst]; auto. apply iter_pos_nonneg, H.
+Qed.
+
+Lemma shr_record_of_loc_m : forall m l, shr_m (shr_record_of_loc m l) = m.
+Proof. intros m l. destruct l as [|[| |]]; reflexivity. Qed.
+
+Lemma shr_fexp_nonneg : forall prec emax m e l, 0 <= m -> 0 <= shr_m (fst (shr_fexp prec emax m e l)).
+Proof.
+  intros. unfold shr_fexp. apply shr_nonneg. rewrite shr_record_of_loc_m. assumption.
+Qed.
+
+Lemma rne_nonneg : forall m l, 0 <= m -> 0 <= round_nearest_even m l.
+Proof.
+  intros m l H. unfold round_nearest_even. destruct l as [|[| |]]; try lia.
+  destruct (Z.even m); lia.
+Qed.
+
+Lemma binary_round_aux_not_nan : forall prec emax sx mx ex lx, 0 <= mx ->
+  binary_round_aux prec emax sx mx ex lx <> S754_nan.
+Proof.
+  intros prec emax sx mx ex lx H. unfold binary_round_aux.
+  pose proof (shr_fexp_nonneg prec emax mx ex lx H) as H1.
+  destruct (shr_fexp prec emax mx ex lx) as [mrs' e']. cbn [fst] in H1.
+  pose proof (shr_fexp_nonneg prec emax _ e' loc_Exact (rne_nonneg _ (loc_of_shr_record mrs') H1)) as H2.
+  destruct (shr_fexp prec emax (round_nearest_even (shr_m mrs') (loc_of_shr_record mrs')) e' loc_Exact)
+    as [mrs'' e'']. cbn [fst] in H2.
+  destruct (shr_m mrs'') as [|p|p]; [discriminate| |lia].
+  destruct (e'' <=? emax - prec); discriminate.
+Qed.
+
+Lemma binary_round_not_nan : forall prec emax sx mx ex, binary_round prec emax sx mx ex <> S754_nan.
+Proof.
+  intros. unfold binary_round. destruct (shl_align mx ex _) as [mz ez].
+  apply binary_round_aux_not_nan. lia.
+Qed.
+
+Lemma binary_normalize_not_nan : forall prec emax m e sz, binary_normalize prec emax m e sz <> S754_nan.
+Proof.
+  intros. unfold binary_normalize. destruct m; [discriminate| |]; apply binary_round_not_nan.
+Qed.
+
+Definition finite_nz (x : spec_float) : bool := match x with S754_finite _ _ _ => true | _ => false end.
+
+Lemma fmul_not_nan : forall f x y, x <> S754_nan -> finite_nz y = true -> fmul f x y <> S754_nan.
+Proof.
+  intros f x y Hx Hy. destruct y as [| | |sy my ey]; try discriminate Hy.
+  unfold fmul, SFmul. destruct x as [sx|sx| |sx mx ex]; try discriminate; [congruence|].
+  apply binary_round_aux_not_nan. lia.
+Qed.
+
+Lemma fconv_not_nan : forall f x, x <> S754_nan -> fconv f x <> S754_nan.
+Proof.
+  intros f x H. unfold fconv. destruct x; auto. apply binary_normalize_not_nan.
+Qed.
+
+Lemma fneg_not_nan : forall x, x <> S754_nan -> fneg x <> S754_nan.
+Proof. intros x H. destruct x; cbn; congruence. Qed.
+
+Lemma f_of_Z_not_nan : forall f z, f_of_Z f z <> S754_nan.
+Proof. intros. apply binary_normalize_not_nan. Qed.
+
+Lemma make_float_loop_not_nan : forall f tbl, forallb finite_nz tbl = true ->
+  forall fuel m e r, m <> S754_nan -> make_float_loop f tbl fuel m e = Some r -> r <> S754_nan.
+Proof.
+  intros f tbl. induction tbl as [|p tbl IH]; intros FT fuel m e r Hm H.
+  - destruct fuel; cbn [make_float_loop] in H; destruct (e =? 0); try discriminate H;
+      injection H as <-; exact Hm.
+  - cbn [forallb] in FT. apply andb_prop in FT as [Fp FT].
+    destruct fuel; cbn [make_float_loop] in H; destruct (e =? 0); try discriminate H;
+      try (injection H as <-; exact Hm).
+    eapply IH; [exact FT| |exact H].
+    destruct (Z.odd e); [apply fmul_not_nan; assumption|exact Hm].
+Qed.
+
+Lemma tables_finite : forall b,
+  forallb finite_nz (pow10_table F64 b) = true /\ forallb finite_nz (pow10_table F32 b) = true.
+Proof. intros []; split; vm_compute; reflexivity. Qed.
+
+Lemma make_float_not_nan : forall f m e r, f = F64 \/ f = F32 -> m <> S754_nan ->
+  make_float f m e = Some r -> r <> S754_nan.
+Proof.
+  intros f m e r Hf Hm H. unfold make_float in H.
+  eapply make_float_loop_not_nan; [|exact Hm|exact H].
+  destruct Hf as [-> | ->]; apply tables_finite.
+Qed.
+
+Definition num_not_nan (n : number) : Prop :=
+  match n with NumFloat f | NumDouble f => f <> S754_nan | _ => True end.
+
+Lemma mk_jfloat_not_nan : forall c f, f <> S754_nan -> num_not_nan (mk_jfloat c f).
+Proof. intros c f H. unfold mk_jfloat. destruct (use_double c); exact H. Qed.
+
+Lemma finish_not_nan : forall c neg mant expo, num_not_nan (finish c neg mant expo).
+Proof.
+  intros c neg mant expo. unfold finish.
+  destruct (mant =? 0); [cbn; discriminate|].
+  destruct (expo >? exp_max_of c); [apply mk_jfloat_not_nan; discriminate|].
+  destruct (expo <? - exp_max_of c - 20); [cbn; discriminate|].
+  assert (D : num_not_nan match make_float F64 (f_of_Z F64 mant) expo with
+                          | Some r => NumDouble (if neg then fneg r else r)
+                          | None => NumFault end).
+  { destruct (make_float F64 (f_of_Z F64 mant) expo) as [r|] eqn:E; [|exact I].
+    pose proof (make_float_not_nan F64 _ _ r (or_introl eq_refl) (f_of_Z_not_nan F64 mant) E) as R.
+    cbn [num_not_nan]. destruct neg; [apply fneg_not_nan|]; exact R. }
+  assert (S : forall k : spec_float -> number, (forall r, r <> S754_nan -> num_not_nan (k r)) ->
+            num_not_nan match make_float F32 (f_of_Z F32 mant) expo with
+                        | Some r => k r
+                        | None => NumFault end).
+  { intros k Hk. destruct (make_float F32 (f_of_Z F32 mant) expo) as [r|] eqn:E; [|exact I].
+    apply Hk. exact (make_float_not_nan F32 _ _ r (or_intror eq_refl) (f_of_Z_not_nan F32 mant) E). }
+  destruct (use_double c).
+  - destruct ((expo <? -38) || (expo >? 38) || (mant >? 2 ^ 23 - 1)); [exact D|].
+    apply S. intros r R. destruct (is_inf r); [exact D|].
+    cbn [num_not_nan]. destruct neg; [apply fneg_not_nan|]; exact R.
+  - apply S. intros r R. cbn [num_not_nan]. destruct neg; [apply fneg_not_nan|]; exact R.
+Qed.
+
+Lemma go_tail_not_nan : forall c neg mant expoff expo s, num_not_nan (go_tail c neg mant expoff expo s).
+Proof. intros. unfold go_tail. destruct s; [apply finish_not_nan|exact I]. Qed.
+
+Definition strip_sign (t : bytes) : bytes :=
+  match t with
+  | c :: r => if ((c =? 45) || (c =? 43))%N then r else t
+  | [] => []
+  end.
+
+Lemma sign_match : forall s0 : bytes,
+  match s0 with
+  | 45%N :: t => (true, t)
+  | 43%N :: t => (false, t)
+  | _ => (false, s0)
+  end = (lit_neg s0, strip_sign s0).
+Proof.
+  intros s0. destruct s0 as [|b t]; [reflexivity|].
+  destruct b as [|p]; [reflexivity|].
+  do 6 (destruct p as [p|p|]; try reflexivity).
+Qed.
+
+(* the first decision of parseNumber: NaN spelling, Infinity spelling, or a digit / '.' *)
+Lemma parse_number_head : forall c s0,
+  let s := strip_sign s0 in
+  (enable_nan c = true /\ (hd0 s = 110 \/ hd0 s = 78)%N /\ parse_number c s0 = mk_jfloat c S754_nan) \/
+  (enable_inf c = true /\ (hd0 s = 105 \/ hd0 s = 73)%N /\
+     parse_number c s0 = mk_jfloat c (S754_infinity (lit_neg s0))) \/
+  (parse_number c s0 = NumInvalid) \/
+  ((NumParse.is_digit (hd0 s) = true \/ hd0 s = 46%N) /\ num_not_nan (parse_number c s0)).
+Proof.
+  intros c s0 s. rewrite parse_number_alt_eq. unfold parse_number_alt.
+  rewrite sign_match. fold s.
+  destruct (enable_nan c && ((hd0 s =? 110)%N || (hd0 s =? 78)%N)) eqn:EN.
+  { left. apply andb_prop in EN as [A B]. apply orb_prop in B.
+    split; [exact A|]. split; [|reflexivity]. destruct B as [B|B]; apply N.eqb_eq in B; auto. }
+  destruct (enable_inf c && ((hd0 s =? 105)%N || (hd0 s =? 73)%N)) eqn:EI.
+  { right; left. apply andb_prop in EI as [A B]. apply orb_prop in B.
+    split; [exact A|]. split; [|reflexivity]. destruct B as [B|B]; apply N.eqb_eq in B; auto. }
+  destruct (negb (NumParse.is_digit (hd0 s)) && negb (hd0 s =? 46)%N) eqn:ED; [right; right; left; reflexivity|].
+  right; right; right. split.
+  { destruct (NumParse.is_digit (hd0 s)); [left; reflexivity|]. cbn [negb andb] in ED.
+    apply negb_false_iff, N.eqb_eq in ED. right. exact ED. }
+  destruct (scan_int s 0) as [mant s1].
+  destruct s1 as [|b1 t1].
+  { destruct (lit_neg s0); [destruct (mant <=? 2 ^ 63)|]; try exact I.
+    destruct (shrink_mantissa 30 _ mant 0) as [m2 eo]. cbn [skip_digits]. apply go_tail_not_nan. }
+  destruct (shrink_mantissa 30 _ mant 0) as [m2 eo].
+  destruct (skip_digits (b1 :: t1) eo) as [eo2 s2].
+  lazymatch goal with |- num_not_nan (match ?fr with _ => _ end) => destruct fr as [[m3 eo3] s3] end.
+  destruct s3 as [|b t]; [apply go_tail_not_nan|].
+  destruct ((b =? 101)%N || (b =? 69)%N); [|apply go_tail_not_nan].
+  lazymatch goal with |- num_not_nan (match ?sg with _ => _ end) => destruct sg as [negexp t1'] end.
+  destruct (scan_exp t1' 0) as [e t2]. apply go_tail_not_nan.
+Qed.
+
+Local Close Scope Z_scope.
+
+Definition jv_is_nan (v : jv) : bool :=
+  match v with JFloat f | JDouble f => is_nan f | _ => false end.
+
+Lemma is_nan_false : forall f, f <> S754_nan -> is_nan f = false.
+Proof. intros f H. destruct f; try reflexivity. congruence. Qed.
+
+Theorem nan_only_when_enabled : forall cf t v,
+  enable_nan cf = false -> dnumber cf t v -> jv_is_nan v = false.
+Proof.
+  intros cf t v EN (_ & _ & _ & _ & _ & _ & JV).
+  assert (NN : num_not_nan (parse_number cf t)).
+  { destruct (parse_number_head cf t) as [(A & _)|[(_ & _ & E)|[E|(_ & E)]]].
+    - congruence.
+    - rewrite E. apply mk_jfloat_not_nan. discriminate.
+    - rewrite E. exact I.
+    - exact E. }
+  destruct (parse_number cf t) as [| |z|z|f|f]; cbn [jv_of_number] in JV; try discriminate JV;
+    injection JV as <-; try reflexivity; cbn [num_not_nan] in NN.
+  - apply is_nan_false. exact NN.
+  - unfold jv_of_double. destruct (use_double cf).
+    + destruct (f_eq f (fconv F64 (fconv F32 f))); cbn [jv_is_nan]; apply is_nan_false;
+        [apply fconv_not_nan|]; exact NN.
+    + cbn [jv_is_nan]. apply is_nan_false, fconv_not_nan, NN.
+Qed.
+
+(* how an accepted token starts, after its optional sign: the NaN spelling (n / N, only when
+   enabled), the Infinity spelling (i / I, only when enabled), or a digit or a dot *)
+Theorem number_spelling : forall cf t v, dnumber cf t v ->
+  let s := strip_sign t in
+  (enable_nan cf = true /\ (hd0 s = 110 \/ hd0 s = 78)) \/
+  (enable_inf cf = true /\ (hd0 s = 105 \/ hd0 s = 73)) \/
+  (NumParse.is_digit (hd0 s) = true \/ hd0 s = 46).
+Proof.
+  intros cf t v (_ & _ & _ & _ & _ & _ & JV). cbv zeta.
+  destruct (parse_number_head cf t) as [(A & B & _)|[(A & B & _)|[E|(A & _)]]].
+  - left. auto.
+  - right; left. auto.
+  - rewrite E in JV. discriminate JV.
+  - right; right. exact A.
+Qed.
+
+Corollary nan_inf_spelling_only_when_enabled : forall cf t v,
+  enable_nan cf = false -> enable_inf cf = false -> dnumber cf t v ->
+  (NumParse.is_digit (hd0 (strip_sign t)) = true \/ hd0 (strip_sign t) = 46) /\
+  Forall (fun c => is_between c 48 57 = true \/ c = 43 \/ c = 45 \/ c = 46 \/ c = 101 \/ c = 69) t.
+Proof.
+  intros cf t v EN EI D. split.
+  - destruct (number_spelling cf t v D) as [(A & _)|[(A & _)|A]]; [congruence|congruence|exact A].
+  - destruct D as (_ & _ & FA & _). revert FA. apply Forall_impl. intros c H.
+    unfold can_be_in_number in H. rewrite EN, EI in H. cbn [orb] in H.
+    repeat (apply orb_prop in H as [H|H]); try (apply N.eqb_eq in H); auto 10.
+Qed.
+
+(* with the default configuration (no NaN, no Infinity) an exponent overflow still yields +inf *)
+Example overflow_gives_infinity :
+  json_run default_cfg None 10 [49; 101; 57; 57; 57] =
+  {| j_err := Ok; j_doc := JFloat (S754_infinity false);
+     j_st := j_st (json_run default_cfg None 10 [49; 101; 57; 57; 57]) |}.
+Proof. vm_compute. reflexivity. Qed.
+
+(* ===================================================================================== *)
+(* COMPLETENESS for the whole dialect (generalises Proofs/ParseComplete.v from the RFC grammar
+   to comments, single quotes, unquoted keys and lenient numbers): every text of the dialect
+   is accepted with the value the dialect assigns to it. *)
+
+(* ---- insignificant bytes ---- *)
+
+Lemma block_comment_fwd : forall b, Forall (fun c => c <> 0) b -> no_close b ->
+  forall ws fuel s r, (ws = true -> forall x, b <> 47 :: x) ->
+  good s -> stream s = b ++ 42 :: 47 :: r -> (length b + 2 <= fuel)%nat ->
+  exists s', block_comment fuel ws s = (Ok, s') /\ good s' /\ stream s' = r /\ cur s' = None /\
+             found s' = found s.
+Proof.
+  induction b as [|c b IH]; intros NZ NC ws fuel s r HW G S L.
+  - cbn [app length] in *. destruct fuel as [|[|fuel]]; [lia|lia|].
+    destruct (next_cons s 42 _ G S ltac:(lia)) as (s1 & E1 & G1 & S1 & C1 & F1).
+    destruct (next_cons _ 47 _ G1 S1 ltac:(lia)) as (s2 & E2 & G2 & S2 & C2 & F2).
+    exists (move s2). cbn [block_comment]. rewrite E1.
+    change (42 =? 0) with false. change (42 =? 47) with false. cbn [andb].
+    change (42 =? 42) with true. rewrite E2.
+    change (47 =? 0) with false. change (47 =? 47) with true. cbn [andb].
+    splits; auto; congruence.
+  - inversion NZ as [|? ? CZ NZ']; subst. cbn [app length] in *.
+    destruct fuel as [|fuel]; [lia|].
+    destruct (next_cons s c _ G S CZ) as (s1 & E1 & G1 & S1 & C1 & F1).
+    cbn [block_comment]. rewrite E1, (eqb_false _ _ CZ).
+    assert (X : (c =? 47) && ws = false).
+    { destruct ws; [|apply andb_false_r]. rewrite andb_true_r. apply N.eqb_neq.
+      intros ->. exact (HW eq_refl b eq_refl). }
+    rewrite X.
+    destruct (IH NZ' (fun p q E => NC (c :: p) q (f_equal (cons c) E)) (c =? 42) fuel (move s1) r)
+      as (s' & E' & G' & S' & C' & F'); auto; try lia.
+    + intros W x ->. apply N.eqb_eq in W. subst c. exact (NC [] x eq_refl).
+    + exists s'. splits; auto; congruence.
+Qed.
+
+Lemma line_comment_fwd : forall b, Forall (fun c => c <> 0 /\ c <> 10) b ->
+  forall fuel s c0 r, good s -> cur s = Some c0 -> stream s = c0 :: b ++ 10 :: r ->
+  (length b + 1 <= fuel)%nat ->
+  exists s', line_comment fuel s = (Ok, s') /\ good s' /\ stream s' = 10 :: r /\ cur s' = Some 10 /\
+             found s' = found s.
+Proof.
+  induction b as [|c b IH]; intros FA fuel s c0 r G C S L.
+  - cbn [app length] in *. destruct fuel as [|fuel]; [lia|].
+    destruct (move_cons s c0 _ G C S) as (G1 & S1 & C1 & F1).
+    destruct (current_cons _ 10 _ G1 S1 ltac:(lia)) as (s2 & E2 & G2 & S2 & C2 & F2 & _).
+    exists s2. cbn [line_comment]. rewrite E2.
+    change (10 =? 0) with false. change (10 =? 10) with true. cbv iota.
+    splits; auto; congruence.
+  - inversion FA as [|? ? [CZ C10] FA']; subst. cbn [app length] in *.
+    destruct fuel as [|fuel]; [lia|].
+    destruct (move_cons s c0 _ G C S) as (G1 & S1 & C1 & F1).
+    destruct (current_cons _ c _ G1 S1 CZ) as (s2 & E2 & G2 & S2 & C2 & F2 & _).
+    cbn [line_comment]. rewrite E2, (eqb_false _ _ CZ), (eqb_false _ _ C10).
+    destruct (IH FA' fuel s2 c r G2 C2 S2 ltac:(lia)) as (s' & E' & G' & S' & C' & F').
+    exists s'. splits; auto; congruence.
+Qed.
+
+Lemma skip_dws : forall cf w, dws cf w -> forall fuel s c r,
+  good s -> stream s = w ++ c :: r ->
+  c <> 0 -> is_space c = false -> (enable_comments cf = true -> c <> 47) ->
+  (length w < fuel)%nat ->
+  exists s1, skip_spaces cf fuel s = (Ok, s1) /\ good s1 /\ stream s1 = c :: r /\
+             cur s1 = Some c /\ found s1 = true /\ lastc s1 = c.
+Proof.
+  intros cf w W. induction W as [|b w Hb W IH|b w EC NZ NC W IH|b w EC FA W IH];
+    intros fuel s c r G S CZ CS C47 L.
+  - cbn [app] in S. destruct fuel as [|fuel]; [cbn in L; lia|].
+    destruct (current_cons s c r G S CZ) as (s' & E & G' & S' & C' & F' & R' & L').
+    cbn [skip_spaces]. rewrite E. rewrite (eqb_false _ _ CZ).
+    change ((c =? 32) || (c =? 9) || (c =? 13) || (c =? 10)) with (is_space c). rewrite CS.
+    assert (X : enable_comments cf && (c =? 47) = false).
+    { destruct (enable_comments cf); [|reflexivity]. cbn [andb]. apply N.eqb_neq. auto. }
+    rewrite X. exists (set_found s'). split; [reflexivity|].
+    destruct G' as (A1 & A2 & A3).
+    split; [unfold good, set_found; cbn; auto|].
+    unfold set_found, stream in *; cbn in *. auto.
+  - cbn [app] in S. destruct fuel as [|fuel]; [cbn in L; lia|].
+    assert (BZ : b <> 0) by (intros ->; discriminate Hb).
+    destruct (next_cons s b _ G S BZ) as (s' & E & G' & S' & C' & F').
+    cbn [skip_spaces]. rewrite E. rewrite (eqb_false _ _ BZ).
+    change ((b =? 32) || (b =? 9) || (b =? 13) || (b =? 10)) with (is_space b). rewrite Hb.
+    apply IH; auto. cbn in L. lia.
+  - (* block comment *)
+    rewrite <- !app_assoc in S. cbn [app] in S.
+    rewrite !app_length in L. cbn [length] in L.
+    destruct fuel as [|fuel]; [lia|].
+    destruct (next_cons s 47 _ G S ltac:(lia)) as (s1 & E1 & G1 & S1 & C1 & F1).
+    destruct (next_cons _ 42 _ G1 S1 ltac:(lia)) as (s2 & E2 & G2 & S2 & C2 & F2).
+    destruct (block_comment_fwd b NZ NC false fuel (move s2) (w ++ c :: r)
+                ltac:(discriminate) G2 S2 ltac:(lia)) as (s3 & E3 & G3 & S3 & C3 & F3).
+    cbn [skip_spaces]. rewrite E1. change (47 =? 0) with false.
+    change ((47 =? 32) || (47 =? 9) || (47 =? 13) || (47 =? 10)) with false. rewrite EC.
+    change (true && (47 =? 47)) with true. cbv iota. rewrite E2.
+    change (42 =? 42) with true. cbv iota. rewrite E3.
+    apply IH; auto. lia.
+  - (* line comment *)
+    rewrite <- !app_assoc in S. cbn [app] in S.
+    rewrite !app_length in L. cbn [length] in L.
+    destruct fuel as [|[|fuel]]; [lia|lia|].
+    destruct (next_cons s 47 _ G S ltac:(lia)) as (s1 & E1 & G1 & S1 & C1 & F1).
+    destruct (current_cons _ 47 _ G1 S1 ltac:(lia)) as (s2 & E2 & G2 & S2 & C2 & F2 & _).
+    destruct (line_comment_fwd b FA (Datatypes.S fuel) s2 47 (w ++ c :: r) G2 C2 S2 ltac:(lia))
+      as (s3 & E3 & G3 & S3 & C3 & F3).
+    destruct (move_cons s3 10 _ G3 C3 S3) as (G4 & S4 & C4 & F4).
+    cbn [skip_spaces]. rewrite E1. change (47 =? 0) with false.
+    change ((47 =? 32) || (47 =? 9) || (47 =? 13) || (47 =? 10)) with false. rewrite EC.
+    change (true && (47 =? 47)) with true. cbv iota. rewrite E2.
+    change (47 =? 42) with false. change (47 =? 47) with true. cbv iota. rewrite E3.
+    rewrite (current_some _ _ C3). change (10 =? 0) with false.
+    change ((10 =? 32) || (10 =? 9) || (10 =? 13) || (10 =? 10)) with true. cbv iota.
+    apply IH; auto. lia.
+Qed.
+
+(* ---- strings ---- *)
+
+Lemma quoted_step_u_q : forall cf q fuel cp acc s tu u t,
+  decode_unicode cf = true -> 92 <> q ->
+  good s -> stream s = tu ++ t -> uescape tu u ->
+  exists s', good s' /\ stream s' = t /\ cur s' = None /\ found s' = found s /\ u < 65536 /\
+    quoted_loop cf (S fuel) q cp acc s =
+      (let '(complete, cp') := cp_append cp u in
+       if complete then quoted_loop cf fuel q cp' (acc ++ encode_codepoint (cp_val cp')) s'
+       else quoted_loop cf fuel q cp' acc s').
+Proof.
+  intros cf q fuel cp acc s tu u t DU Q92 G HS UE.
+  destruct UE as [d1 d2 d3 d4 v1 v2 v3 v4 H1 H2 H3 H4]. cbn [app] in HS.
+  destruct (next_cons s 92 _ G HS ltac:(lia)) as (s1 & E1 & G1 & S1 & C1 & F1).
+  destruct (next_cons _ 117 _ G1 S1 ltac:(lia)) as (s2 & E2 & G2 & S2 & C2 & F2).
+  destruct (hex4_correct _ _ _ _ _ _ _ _ _ _ G2 S2
+              (hex_value_lt _ _ H1) (hex_value_lt _ _ H2) (hex_value_lt _ _ H3) (hex_value_lt _ _ H4)
+              H1 H2 H3 H4) as (s3 & E3 & G3 & S3 & C3 & F3 & U).
+  exists s3. split; [exact G3|]. split; [exact S3|]. split; [exact C3|]. split; [congruence|].
+  split; [exact U|].
+  cbn [quoted_loop]. rewrite E1, (eqb_false _ _ Q92).
+  change (92 =? 0) with false. change (92 =? 92) with true.
+  cbv iota. rewrite E2.
+  change (117 =? 0) with false. change (117 =? 117) with true. cbv iota.
+  rewrite DU, E3. unfold hex4_value. destruct (cp_append cp _) as [complete cp']. reflexivity.
+Qed.
+
+Lemma dialect_escape : forall e c, In (e, c) dialect_escapes ->
+  e <> 0 /\ e <> 117 /\ unescape_char e = c /\ c <> 0.
+Proof.
+  intros e c H. unfold dialect_escapes in H. cbn [In] in H.
+  repeat (destruct H as [H|H]; [injection H as <- <-; repeat split; try reflexivity; lia|]).
+  contradiction.
+Qed.
+
+Lemma dchars_fwd : forall cf q, (q = 34 \/ q = 39) ->
+  forall hi body out, dchars cf q hi body out ->
+  forall fuel cp acc s tail, hi_sur cp = hi -> hi < 1024 ->
+    good s -> stream s = body ++ q :: tail -> (length body < fuel)%nat ->
+    exists s', quoted_loop cf fuel q cp acc s = (Ok, acc ++ out, s') /\
+               good s' /\ stream s' = tail /\ cur s' = None /\ found s' = found s.
+Proof.
+  intros cf q HQ.
+  assert (Q0 : q <> 0) by (destruct HQ; lia).
+  assert (Q92 : 92 <> q) by (destruct HQ; lia).
+  assert (Q117 : 117 <> q) by (destruct HQ; lia).
+  intros hi body out D.
+  induction D as [hi|hi c t o CQ CZ C92 D IH|hi e c t o HIn D IH|hi t o DU D IH
+                  |hi tu u t o DU UE NS D IH|hi tu h t o DU UE HR D IH|hi tu l t o DU UE LR D IH];
+    intros fuel cp acc s tail HC HI G HS L.
+  - cbn [app] in HS. destruct fuel as [|fuel]; [cbn in L; lia|].
+    destruct (next_cons s q tail G HS Q0) as (s1 & E1 & G1 & S1 & C1 & F1).
+    cbn [quoted_loop]. rewrite E1, N.eqb_refl. exists (move s1). rewrite app_nil_r. auto.
+  - cbn [app length] in *. destruct fuel as [|fuel]; [lia|].
+    destruct (next_cons s c _ G HS CZ) as (s1 & E1 & G1 & S1 & C1 & F1).
+    cbn [quoted_loop]. rewrite E1, (eqb_false _ _ CQ), (eqb_false _ _ CZ), (eqb_false _ _ C92).
+    destruct (IH fuel cp (acc ++ [c]) _ tail HC HI G1 S1 ltac:(lia)) as (s' & E' & G' & S' & C' & F').
+    exists s'. rewrite E', <- app_assoc. splits; auto; congruence.
+  - destruct (dialect_escape e c HIn) as (EZ & EU & UN & CZ).
+    cbn [app length] in *. destruct fuel as [|fuel]; [lia|].
+    destruct (next_cons s 92 _ G HS ltac:(lia)) as (s1 & E1 & G1 & S1 & C1 & F1).
+    destruct (current_cons _ e _ G1 S1 EZ) as (s2 & E2 & G2 & S2 & C2 & F2 & _).
+    destruct (move_cons _ _ _ G2 C2 S2) as (G3 & S3 & C3 & F3).
+    cbn [quoted_loop]. rewrite E1, (eqb_false _ _ Q92).
+    change (92 =? 0) with false. change (92 =? 92) with true. cbv iota. rewrite E2.
+    rewrite (eqb_false _ _ EZ), (eqb_false _ _ EU), UN, (eqb_false _ _ CZ).
+    destruct (IH fuel cp (acc ++ [c]) _ tail HC HI G3 S3 ltac:(lia)) as (s' & E' & G' & S' & C' & F').
+    exists s'. rewrite E', <- app_assoc. splits; auto; congruence.
+  - cbn [app length] in *. destruct fuel as [|[|fuel]]; [lia|lia|].
+    destruct (next_cons s 92 _ G HS ltac:(lia)) as (s1 & E1 & G1 & S1 & C1 & F1).
+    destruct (current_cons _ 117 _ G1 S1 ltac:(lia)) as (s2 & E2 & G2 & S2 & C2 & F2 & _).
+    destruct (move_cons _ _ _ G2 C2 S2) as (G3 & S3 & C3 & F3).
+    cbn [quoted_loop]. rewrite E1, (eqb_false _ _ Q92).
+    change (92 =? 0) with false. change (92 =? 92) with true. cbv iota. rewrite E2.
+    change (117 =? 0) with false. change (117 =? 117) with true. cbv iota. rewrite DU.
+    rewrite (current_some _ _ C2), (eqb_false _ _ Q117).
+    change (117 =? 0) with false. change (117 =? 92) with false. cbv iota.
+    destruct (IH fuel cp ((acc ++ [92]) ++ [117]) _ tail HC HI G3 S3 ltac:(lia))
+      as (s' & E' & G' & S' & C' & F').
+    exists s'. rewrite E', <- !app_assoc. splits; auto; congruence.
+  - rewrite <- app_assoc in HS. rewrite app_length in L.
+    destruct fuel as [|fuel]; [lia|].
+    destruct (quoted_step_u_q cf q fuel cp acc s tu u _ DU Q92 G HS UE)
+      as (s1 & G1 & S1 & C1 & F1 & U & E).
+    rewrite E, (cp_append_bmp cp u U NS). cbn [cp_val].
+    rewrite encode_codepoint_correct by lia.
+    destruct (uescape_shape _ _ UE) as (x & ->). cbn [length] in L.
+    destruct (IH fuel {| hi_sur := hi_sur cp; cp_val := u |} (acc ++ utf8_encode u) s1 tail HC HI G1 S1
+                ltac:(lia)) as (s' & E' & G' & S' & C' & F').
+    exists s'. rewrite E', <- app_assoc. splits; auto; congruence.
+  - rewrite <- app_assoc in HS. rewrite app_length in L.
+    destruct fuel as [|fuel]; [lia|].
+    destruct (quoted_step_u_q cf q fuel cp acc s tu h _ DU Q92 G HS UE)
+      as (s1 & G1 & S1 & C1 & F1 & U & E).
+    destruct (high_bits h HR) as [HB1 HB2].
+    rewrite E. unfold cp_append. rewrite (range_high h HR).
+    destruct (uescape_shape _ _ UE) as (x & ->). cbn [length] in L.
+    destruct (IH fuel {| hi_sur := N.land h 0x3FF; cp_val := cp_val cp |} acc s1 tail
+                ltac:(cbn [hi_sur]; exact HB1) HB2 G1 S1 ltac:(lia)) as (s' & E' & G' & S' & C' & F').
+    exists s'. rewrite E'. splits; auto; congruence.
+  - rewrite <- app_assoc in HS. rewrite app_length in L.
+    destruct fuel as [|fuel]; [lia|].
+    destruct (quoted_step_u_q cf q fuel cp acc s tu l _ DU Q92 G HS UE)
+      as (s1 & G1 & S1 & C1 & F1 & U & E).
+    assert (NH : is_high_surrogate l = false).
+    { unfold is_high_surrogate. apply andb_false_intro2. apply N.ltb_ge. lia. }
+    rewrite E. unfold cp_append. rewrite NH, (range_low l LR). cbn [cp_val hi_sur].
+    rewrite HC, (low_value hi l HI LR).
+    destruct (uescape_shape _ _ UE) as (x & ->). cbn [length] in L.
+    match goal with |- context [quoted_loop cf fuel q ?cp' ?acc' s1] =>
+      destruct (IH fuel cp' acc' s1 tail ltac:(reflexivity) HI G1 S1 ltac:(lia))
+        as (s' & E' & G' & S' & C' & F') end.
+    exists s'. rewrite E', <- app_assoc. splits; auto; congruence.
+Qed.
+
+Lemma parse_dstring_ok : forall cf t str, dstring cf t str ->
+  forall fuel s tail,
+    good s -> stream s = t ++ tail -> (length t <= fuel)%nat ->
+    exists s', parse_quoted_string cf fuel s = (Ok, str, s') /\
+               good s' /\ stream s' = tail /\ cur s' = None /\ found s' = found s.
+Proof.
+  intros cf t str (q & body & HQ & -> & D) fuel s tail G HS L.
+  rewrite <- !app_assoc in HS. cbn [app] in HS.
+  rewrite !app_length in L. cbn [length] in L.
+  assert (Q0 : q <> 0) by (destruct HQ; lia).
+  destruct (next_cons s q _ G HS Q0) as (s1 & E1 & G1 & S1 & C1 & F1).
+  unfold parse_quoted_string. rewrite E1.
+  destruct (dchars_fwd cf q HQ 0 body str D fuel cp_init [] _ tail eq_refl ltac:(lia) G1 S1 ltac:(lia))
+    as (s' & E' & G' & S' & C' & F').
+  exists s'. rewrite E'. cbn [app]. splits; auto; congruence.
+Qed.
+
+(* ---- keys ---- *)
+
+Lemma nq_nonzero : forall c, can_be_in_non_quoted_string c = true -> c <> 0.
+Proof. intros c H ->. discriminate H. Qed.
+
+Lemma nq_not_quote : forall c, can_be_in_non_quoted_string c = true -> is_quote c = false.
+Proof.
+  intros c H. unfold is_quote.
+  destruct (N.eqb_spec c 39) as [->|_]; [discriminate H|].
+  destruct (N.eqb_spec c 34) as [->|_]; [discriminate H|]. reflexivity.
+Qed.
+
+Lemma non_quoted_loop_fwd : forall k, Forall (fun c => can_be_in_non_quoted_string c = true) k ->
+  forall fuel acc c s x r,
+    good s -> cur s = Some c -> stream s = c :: k ++ x :: r ->
+    x <> 0 -> can_be_in_non_quoted_string x = false -> (length k < fuel)%nat ->
+    exists s', non_quoted_loop fuel acc c s = (Ok, acc ++ c :: k, s') /\
+               good s' /\ stream s' = x :: r /\ cur s' = Some x /\ found s' = found s.
+Proof.
+  induction k as [|c' k IH]; intros FA fuel acc c s x r G C HS XZ XN L.
+  - cbn [app length] in *. destruct fuel as [|fuel]; [lia|].
+    destruct (move_cons s c _ G C HS) as (G1 & S1 & C1 & F1).
+    destruct (current_cons _ x _ G1 S1 XZ) as (s2 & E2 & G2 & S2 & C2 & F2 & _).
+    exists s2. cbn [non_quoted_loop]. rewrite E2, XN. splits; auto; congruence.
+  - inversion FA as [|? ? K FA']; subst. cbn [app length] in *.
+    destruct fuel as [|fuel]; [lia|].
+    destruct (move_cons s c _ G C HS) as (G1 & S1 & C1 & F1).
+    destruct (current_cons _ c' _ G1 S1 (nq_nonzero _ K)) as (s2 & E2 & G2 & S2 & C2 & F2 & _).
+    cbn [non_quoted_loop]. rewrite E2, K.
+    destruct (IH FA' fuel (acc ++ [c]) c' s2 x r G2 C2 S2 XZ XN ltac:(lia))
+      as (s' & E' & G' & S' & C' & F').
+    exists s'. rewrite E', <- app_assoc. splits; auto; congruence.
+Qed.
+
+Lemma parse_dkey_ok : forall cf kt k, dkey cf kt k ->
+  forall fuel s x r,
+    good s -> stream s = kt ++ x :: r ->
+    x <> 0 -> can_be_in_non_quoted_string x = false -> (length kt <= fuel)%nat ->
+    exists s', parse_key cf fuel s = (Ok, k, s') /\ good s' /\ stream s' = x :: r /\
+               found s' = found s.
+Proof.
+  intros cf kt k [DS|(NE & FA & ->)] fuel s x r G HS XZ XN L.
+  - pose proof DS as (q & body & HQ & Et & _).
+    assert (Q0 : q <> 0) by (destruct HQ; lia).
+    assert (S2 : stream s = q :: (body ++ [q]) ++ x :: r) by (rewrite HS, Et; reflexivity).
+    destruct (current_cons s q _ G S2 Q0) as (s1 & E1 & G1 & S1 & C1 & F1 & _).
+    unfold parse_key. rewrite E1.
+    assert (IQ : is_quote q = true) by (destruct HQ; subst; reflexivity). rewrite IQ.
+    assert (S3 : stream s1 = kt ++ x :: r) by (rewrite S1, Et; reflexivity).
+    destruct (parse_dstring_ok cf kt k DS fuel s1 _ G1 S3 L) as (s' & E' & G' & S' & C' & F').
+    exists s'. splits; auto; congruence.
+  - destruct kt as [|c k]; [congruence|]. inversion FA as [|? ? K FA']; subst.
+    cbn [app length] in *.
+    destruct (current_cons s c _ G HS (nq_nonzero _ K)) as (s1 & E1 & G1 & S1 & C1 & F1 & _).
+    unfold parse_key. rewrite E1, (nq_not_quote _ K).
+    unfold parse_non_quoted_string. rewrite (current_some _ _ C1), K.
+    destruct (non_quoted_loop_fwd k FA' fuel [] c s1 x r G1 C1 S1 XZ XN ltac:(lia))
+      as (s' & E' & G' & S' & C' & F').
+    exists s'. cbn [app] in E'. splits; auto; congruence.
+Qed.
+
+(* ---- numbers ---- *)
+
+Lemma parse_dnumber_ok : forall cf t v rest s,
+  dnumber cf t v ->
+  good s -> stream s = t ++ rest -> delimiter cf rest ->
+  exists s', parse_numeric_value cf s = (Ok, v, s') /\ post s' rest /\ found s' = found s /\
+             lastc s' = hd 0 rest.
+Proof.
+  intros cf t v rest s (_ & Len & FA & _ & _ & _ & Den) G S D.
+  destruct (scan_number_all cf t FA 63 [] s rest G S Len) as (s1 & E1 & G1 & S1 & F1).
+  destruct (peek s1 rest G1 S1) as (s2 & E2 & F2 & P2 & L2 & C2).
+  unfold parse_numeric_value. rewrite E1. cbn [app].
+  destruct (Nat.eqb (length t) 63) eqn:E63.
+  - apply Nat.eqb_eq in E63. rewrite E63. cbn [Nat.sub scan_number].
+    rewrite E63. cbn [Nat.eqb]. rewrite E2. cbn [snd]. rewrite Den.
+    exists s2. splits; auto. congruence.
+  - apply Nat.eqb_neq in E63.
+    destruct (63 - length t)%nat as [|k] eqn:EK; [lia|].
+    cbn [scan_number]. rewrite E2.
+    assert (X : can_be_in_number cf (hd 0 rest) = false).
+    { destruct rest as [|b r]; [apply not_numchar; auto|exact D]. }
+    rewrite X. apply Nat.eqb_neq in E63. rewrite E63. rewrite Den.
+    exists s2. splits; auto. congruence.
+Qed.
+
+Lemma numchar_not_struct : forall cf c, can_be_in_number cf c = true ->
+  c <> 91 /\ c <> 123 /\ c <> 34 /\ c <> 39 /\ c <> 47 /\ c <> 58.
+Proof.
+  intros cf c H. unfold can_be_in_number in H.
+  repeat split; intros ->; destruct (enable_nan cf || enable_inf cf); discriminate H.
+Qed.
+
+(* ---- first byte of a value, of a key ---- *)
+
+Definition dvs (c : N) : Prop := c <> 0 /\ is_space c = false /\ c <> 47 /\ c <> 93 /\ c <> 125.
+
+Lemma numchar_dvs : forall cf c, can_be_in_number cf c = true -> dvs c.
+Proof.
+  intros cf c H. destruct (numchar_not_struct cf c H) as (_ & _ & _ & _ & A & _).
+  unfold dvs. split; [eapply numchar_nonzero; eassumption|].
+  split.
+  { destruct (is_space c) eqn:SP; [|reflexivity].
+    rewrite (not_numchar cf c) in H by auto. discriminate H. }
+  split; [exact A|].
+  split; intros ->; rewrite (not_numchar cf) in H by auto; discriminate H.
+Qed.
+
+Lemma dvalue_head : forall cf d t v, dvalue cf d t v -> exists c r, t = c :: r /\ dvs c.
+Proof.
+  intros cf d t v H.
+  destruct H as [d|d|d|d t v N|d t s (q & body & HQ & -> & _)|d w _|d t vs _|d w _|d t ms _];
+    try (eexists _, _; split; [reflexivity|unfold dvs; splits; try reflexivity; lia]).
+  - destruct N as (NE & _ & FA & _). destruct t as [|c r]; [congruence|].
+    inversion FA; subst. exists c, r. split; [reflexivity|]. eapply numchar_dvs; eassumption.
+  - exists q. eexists. split; [reflexivity|].
+    destruct HQ as [-> | ->]; unfold dvs; splits; try reflexivity; lia.
+Qed.
+
+Lemma delements_head : forall cf d t vs, delements cf d t vs ->
+  exists w c r, dws cf w /\ t = w ++ c :: r /\ dvs c.
+Proof.
+  intros cf d t vs H.
+  destruct H as [d w1 t v w2 W1 J W2|d w1 t v w2 r vs W1 J W2 _];
+    destruct (dvalue_head _ _ _ _ J) as (c & r' & -> & Hc);
+    exists w1, c; eexists; (split; [exact W1|split; [|exact Hc]]); cbn [app]; reflexivity.
+Qed.
+
+Lemma nq_dvs : forall c, can_be_in_non_quoted_string c = true -> dvs c.
+Proof.
+  intros c H. unfold dvs. split; [apply nq_nonzero; exact H|].
+  split.
+  { unfold is_space.
+    destruct (N.eqb_spec c 32) as [->|_]; [discriminate H|].
+    destruct (N.eqb_spec c 9) as [->|_]; [discriminate H|].
+    destruct (N.eqb_spec c 13) as [->|_]; [discriminate H|].
+    destruct (N.eqb_spec c 10) as [->|_]; [discriminate H|]. reflexivity. }
+  repeat split; intros ->; discriminate H.
+Qed.
+
+Lemma dkey_head : forall cf kt k, dkey cf kt k -> exists c r, kt = c :: r /\ dvs c.
+Proof.
+  intros cf kt k [(q & body & HQ & -> & _)|(NE & FA & _)].
+  - exists q. eexists. split; [reflexivity|].
+    destruct HQ as [-> | ->]; unfold dvs; splits; try reflexivity; lia.
+  - destruct kt as [|c r]; [congruence|]. inversion FA; subst.
+    exists c, r. split; [reflexivity|]. apply nq_dvs. assumption.
+Qed.
+
+Lemma dmembers_head : forall cf d t ms, dmembers cf d t ms ->
+  exists w c r, dws cf w /\ t = w ++ c :: r /\ dvs c.
+Proof.
+  intros cf d t ms H.
+  destruct H as [d w1 kt k w2 w3 t v w4 W1 K _ _ _ _|d w1 kt k w2 w3 t v w4 r ms W1 K _ _ _ _ _];
+    destruct (dkey_head _ _ _ K) as (c & r' & -> & Hc);
+    exists w1, c; eexists; (split; [exact W1|split; [|exact Hc]]); cbn [app]; reflexivity.
+Qed.
+
+(* ---- what follows a value or a key ---- *)
+
+Lemma numchar_47 : forall cf, can_be_in_number cf 47 = false.
+Proof. intro cf. unfold can_be_in_number. destruct (enable_nan cf || enable_inf cf); reflexivity. Qed.
+
+Lemma dws_next : forall cf w c r, dws cf w -> c = 44 \/ c = 93 \/ c = 125 \/ c = 58 ->
+  exists b r', w ++ c :: r = b :: r' /\ b <> 0 /\ can_be_in_number cf b = false /\
+               can_be_in_non_quoted_string b = false.
+Proof.
+  intros cf w c r W HC. destruct W as [|b w Hb W|b w _ _ _ _|b w _ _ _].
+  - exists c, r. split; [reflexivity|].
+    destruct HC as [->|[->|[->| ->]]]; (split; [lia|]); split; try reflexivity;
+      unfold can_be_in_number; destruct (enable_nan cf || enable_inf cf); reflexivity.
+  - exists b, (w ++ c :: r). split; [reflexivity|].
+    split; [intros ->; discriminate Hb|]. split; [apply not_numchar; auto|].
+    destruct (can_be_in_non_quoted_string b) eqn:K; [|reflexivity].
+    destruct (nq_dvs b K) as (_ & X & _). congruence.
+  - eexists 47, _. split; [reflexivity|]. split; [lia|]. split; [apply numchar_47|reflexivity].
+  - eexists 47, _. split; [reflexivity|]. split; [lia|]. split; [apply numchar_47|reflexivity].
+Qed.
+
+Lemma delimiter_dws_then : forall cf w c r, dws cf w -> c = 44 \/ c = 93 \/ c = 125 ->
+  delimiter cf (w ++ c :: r).
+Proof.
+  intros cf w c r W HC.
+  destruct (dws_next cf w c r W ltac:(tauto)) as (b & r' & -> & _ & X & _). exact X.
+Qed.
+
+Lemma post_dws_good : forall cf s' w c r, post s' (w ++ c :: r) -> dws cf w ->
+  c = 44 \/ c = 93 \/ c = 125 -> good s' /\ stream s' = w ++ c :: r.
+Proof.
+  intros cf s' w c r P W HC.
+  destruct (dws_next cf w c r W ltac:(tauto)) as (b & r' & E & BZ & _). rewrite E in *.
+  destruct P as [P|[_ [P|[r0 P]]]]; [exact P|discriminate P|].
+  injection P as P _. contradiction.
+Qed.
+
+(* ---- parse_variant, by kind of first byte ---- *)
+
+Lemma dpv_enter : forall cf w fuel s c r,
+  dws cf w -> good s -> stream s = w ++ c :: r -> dvs c -> (length w < fuel)%nat ->
+  exists s1, skip_spaces cf fuel s = (Ok, s1) /\ good s1 /\ stream s1 = c :: r /\
+             cur s1 = Some c /\ found s1 = true.
+Proof.
+  intros cf w fuel s c r W G S (A & B & C & _) L.
+  destruct (skip_dws cf w W fuel s c r G S A B (fun _ => C) L) as (s1 & E & G1 & S1 & C1 & F1 & _).
+  exists s1. auto.
+Qed.
+
+Lemma pv_num_d : forall cf fuel L s s1 c,
+  skip_spaces cf fuel s = (Ok, s1) -> cur s1 = Some c ->
+  can_be_in_number cf c = true -> c <> 116 -> c <> 102 -> c <> 110 ->
+  parse_variant cf fuel L None s = parse_numeric_value cf s1.
+Proof.
+  intros cf fuel L s s1 c E C K N1 N2 N3.
+  destruct (numchar_not_struct cf c K) as (A1 & A2 & A3 & A4 & _).
+  destruct L; cbn [parse_variant]; rewrite E, (current_some _ _ C); unfold is_quote;
+    rewrite !(eqb_false c) by assumption; reflexivity.
+Qed.
+
+Lemma pv_str_q : forall cf fuel L s s1 q, (q = 34 \/ q = 39) ->
+  skip_spaces cf fuel s = (Ok, s1) -> cur s1 = Some q ->
+  parse_variant cf fuel L None s =
+    match parse_quoted_string cf fuel s1 with
+    | (Ok, str, s) => (Ok, JStr str, s)
+    | (e, _, s) => (e, JNull, s)
+    end.
+Proof.
+  intros cf fuel L s s1 q HQ E C.
+  destruct HQ; subst q; destruct L; cbn [parse_variant]; rewrite E, (current_some _ _ C); reflexivity.
+Qed.
+
+Lemma d_pv_skip_eq : forall cf fuel L f s s1 c,
+  skip_spaces cf fuel s = (Ok, s1) -> cur s1 = Some c -> found s1 = true -> dvs c ->
+  parse_variant cf fuel L f s1 = parse_variant cf fuel L f s.
+Proof.
+  intros cf fuel L f s s1 c E C F (A & B & D & _).
+  destruct fuel as [|fuel]; [discriminate E|].
+  destruct L; cbn [parse_variant]; rewrite E, (skip_fix cf fuel s1 c C F A B D); reflexivity.
+Qed.
+
+Lemma d_array_loop_skip : forall cf fuel L sv fl acc s s1 c,
+  skip_spaces cf fuel s = (Ok, s1) -> cur s1 = Some c -> found s1 = true -> dvs c ->
+  array_loop cf (parse_variant cf fuel L) sv (S fl) None acc s1 =
+  array_loop cf (parse_variant cf fuel L) sv (S fl) None acc s.
+Proof.
+  intros cf fuel L sv fl acc s s1 c E C F V. cbn [array_loop f_allow].
+  rewrite (d_pv_skip_eq cf fuel L None s s1 c E C F V). reflexivity.
+Qed.
+
+(* ---- the statements proved by mutual induction on the derivation ---- *)
+
+Definition dPv (cf : cfg) (d : nat) (t : bytes) (v : jv) : Prop :=
+  forall L fuel s w rest,
+    dws cf w -> (d <= L)%nat -> good s -> stream s = w ++ t ++ rest ->
+    (is_number v = true -> delimiter cf rest) ->
+    (length (w ++ t ++ rest) < fuel)%nat ->
+    exists s', parse_variant cf fuel L None s = (Ok, v, s') /\ post s' rest /\ found s' = true /\
+               (is_number v = true -> lastc s' = hd 0 rest).
+
+Definition dPe (cf : cfg) (d : nat) (t : bytes) (vs : list jv) : Prop :=
+  forall L fuel fl s rest acc,
+    (d <= L)%nat -> good s -> stream s = t ++ 93 :: rest ->
+    (length (t ++ 93%N :: rest) < fuel)%nat -> (length (t ++ 93%N :: rest) < fl)%nat ->
+    exists s', array_loop cf (parse_variant cf fuel L) (skip_variant cf fuel L) fl None acc s
+                 = (Ok, JArr (acc ++ vs), s') /\
+               good s' /\ stream s' = rest /\ cur s' = None /\ found s' = true.
+
+Definition dPm (cf : cfg) (d : nat) (t : bytes) (ms : list (bytes * jv)) : Prop :=
+  forall L fuel fl s rest acc,
+    (d <= L)%nat -> good s -> stream s = t ++ 125 :: rest ->
+    (length (t ++ 125%N :: rest) < fuel)%nat -> (length (t ++ 125%N :: rest) < fl)%nat ->
+    exists s', obj_entry cf (parse_variant cf fuel L) (skip_variant cf fuel L) fl None acc s
+                 = (Ok, JObj (obj_den ms acc), s') /\
+               good s' /\ stream s' = rest /\ cur s' = None /\ found s' = true.
+
+(* scalars *)
+
+Lemma d_case_keyword : forall cf d kw v k0 kr,
+  kw = k0 :: kr -> dvs k0 -> Forall (fun c => c <> 0) kw -> is_number v = false ->
+  (forall fuel L s s1, skip_spaces cf fuel s = (Ok, s1) -> cur s1 = Some k0 ->
+     parse_variant cf fuel L None s = (let '(e, s) := skip_keyword kw s1 in (e, v, s))) ->
+  dPv cf d kw v.
+Proof.
+  intros cf d kw v k0 kr -> V FA NN U L fuel s w rest W DL G S D LF.
+  cbn [app] in S.
+  destruct (dpv_enter cf w fuel s k0 _ W G S V ltac:(lens)) as (s1 & E1 & G1 & S1 & C1 & F1).
+  rewrite (U fuel L s s1 E1 C1).
+  destruct (skip_keyword_ok (k0 :: kr) s1 rest FA G1 S1) as (s' & E' & G' & S' & F').
+  rewrite E'. exists s'. splits; auto.
+  - left. auto.
+  - congruence.
+  - rewrite NN. discriminate.
+Qed.
+
+Lemma d_case_null : forall cf d, dPv cf d [110; 117; 108; 108] JNull.
+Proof.
+  intros cf d. apply (d_case_keyword cf d kw_null JNull 110 [117; 108; 108]); try reflexivity.
+  - unfold dvs; splits; try reflexivity; lia.
+  - apply nz_list. reflexivity.
+  - intros. apply pv_null; assumption.
+Qed.
+
+Lemma d_case_true : forall cf d, dPv cf d [116; 114; 117; 101] (JBool true).
+Proof.
+  intros cf d. apply (d_case_keyword cf d kw_true (JBool true) 116 [114; 117; 101]); try reflexivity.
+  - unfold dvs; splits; try reflexivity; lia.
+  - apply nz_list. reflexivity.
+  - intros. apply pv_true; assumption.
+Qed.
+
+Lemma d_case_false : forall cf d, dPv cf d [102; 97; 108; 115; 101] (JBool false).
+Proof.
+  intros cf d. apply (d_case_keyword cf d kw_false (JBool false) 102 [97; 108; 115; 101]); try reflexivity.
+  - unfold dvs; splits; try reflexivity; lia.
+  - apply nz_list. reflexivity.
+  - intros. apply pv_false; assumption.
+Qed.
+
+Lemma d_case_num : forall cf d t v, dnumber cf t v -> dPv cf d t v.
+Proof.
+  intros cf d t v N L fuel s w rest W DL G S D LF.
+  pose proof N as (NE & _ & FA & H1 & H2 & H3 & JV).
+  destruct t as [|c r]; [congruence|]. cbn [hd] in H1, H2, H3.
+  inversion FA as [|? ? K _]; subst.
+  assert (S0 : stream s = w ++ c :: (r ++ rest)) by (rewrite S; reflexivity).
+  destruct (dpv_enter cf w fuel s c _ W G S0 (numchar_dvs cf c K) ltac:(lens))
+    as (s1 & E1 & G1 & S1 & C1 & F1).
+  rewrite (pv_num_d cf fuel L s s1 c E1 C1 K H1 H2 H3).
+  assert (S2 : stream s1 = (c :: r) ++ rest) by (rewrite S1; reflexivity).
+  destruct (parse_dnumber_ok cf (c :: r) v rest s1 N G1 S2
+              (D (jv_of_number_is_number _ _ _ JV))) as (s' & E' & P' & F' & L').
+  exists s'. splits; auto. congruence.
+Qed.
+
+Lemma d_case_str : forall cf d t str, dstring cf t str -> dPv cf d t (JStr str).
+Proof.
+  intros cf d t str J L fuel s w rest W DL G S D LF.
+  pose proof J as (q & body & HQ & Et & _).
+  assert (S0 : stream s = w ++ q :: ((body ++ [q]) ++ rest)) by (rewrite S, Et; reflexivity).
+  assert (V : dvs q) by (destruct HQ as [-> | ->]; unfold dvs; splits; try reflexivity; lia).
+  destruct (dpv_enter cf w fuel s q _ W G S0 V ltac:(lens)) as (s1 & E1 & G1 & S1 & C1 & F1).
+  rewrite (pv_str_q cf fuel L s s1 q HQ E1 C1).
+  assert (S2 : stream s1 = t ++ rest) by (rewrite S1, Et; reflexivity).
+  destruct (parse_dstring_ok cf t str J fuel s1 rest G1 S2 ltac:(lens)) as (s' & E' & G' & S' & C' & F').
+  rewrite E'. exists s'. splits; auto.
+  - left. auto.
+  - congruence.
+  - discriminate.
+Qed.
+
+(* arrays *)
+
+Lemma d_case_arr_empty : forall cf d w0, dws cf w0 -> dPv cf (S d) ([91] ++ w0 ++ [93]) (JArr []).
+Proof.
+  intros cf d w0 W0 L fuel s w rest W DL G S D LF.
+  destruct L as [|L]; [lia|].
+  rewrite <- !app_assoc in S. cbn [app] in S.
+  assert (V : dvs 91) by (unfold dvs; splits; try reflexivity; lia).
+  destruct (dpv_enter cf w fuel s 91 _ W G S V ltac:(lens)) as (s1 & E1 & G1 & S1 & C1 & F1).
+  rewrite (pv_arr cf fuel L s s1 E1 C1).
+  destruct (move_cons s1 91 _ G1 C1 S1) as (G2 & S2 & C2 & F2).
+  destruct (skip_dws cf w0 W0 fuel (move s1) 93 rest G2 S2 ltac:(lia) eq_refl ltac:(lia) ltac:(lens))
+    as (s3 & E3 & G3 & S3 & C3 & F3 & _).
+  rewrite E3. cbv beta iota.
+  destruct (eat_yes s3 93 rest G3 S3 ltac:(lia)) as (s4 & E4 & G4 & S4 & C4 & F4).
+  rewrite E4. exists s4. splits; auto.
+  - left; auto.
+  - congruence.
+  - discriminate.
+Qed.
+
+Lemma d_element_step : forall cf d t v, dPv cf d t v ->
+  forall w1 w2 c tl L fuel fl acc s,
+    dws cf w1 -> dws cf w2 -> c = 44 \/ c = 93 -> (d <= L)%nat ->
+    good s -> stream s = w1 ++ t ++ w2 ++ c :: tl ->
+    (length (w1 ++ t ++ w2 ++ c :: tl) < fuel)%nat ->
+    (length (w1 ++ t ++ w2 ++ c :: tl) < S fl)%nat ->
+    exists s2, good s2 /\ stream s2 = c :: tl /\ cur s2 = Some c /\ found s2 = true /\
+      array_loop cf (parse_variant cf fuel L) (skip_variant cf fuel L) (S fl) None acc s =
+      (let '(b, s) := eat 93 s2 in
+       if b then (Ok, JArr (acc ++ [v]), s)
+       else
+         let '(b, s) := eat 44 s in
+         if b then array_loop cf (parse_variant cf fuel L) (skip_variant cf fuel L) fl None (acc ++ [v]) s
+         else (InvalidInput, JArr (acc ++ [v]), s)).
+Proof.
+  intros cf d t v IH w1 w2 c tl L fuel fl acc s W1 W2 HC DL G S LF LL.
+  assert (HC' : c = 44 \/ c = 93 \/ c = 125) by tauto.
+  assert (CZ : c <> 0) by (destruct HC; lia).
+  assert (CS : is_space c = false) by (destruct HC as [->| ->]; reflexivity).
+  assert (C47 : c <> 47) by (destruct HC; lia).
+  destruct (IH L fuel s w1 (w2 ++ c :: tl) W1 DL G S (fun _ => delimiter_dws_then cf w2 c tl W2 HC') LF)
+    as (s1 & E1 & P1 & F1 & _).
+  destruct (post_dws_good cf s1 w2 c tl P1 W2 HC') as (G1 & S1).
+  destruct (skip_dws cf w2 W2 fl s1 c tl G1 S1 CZ CS (fun _ => C47) ltac:(lens))
+    as (s2 & E2 & G2 & S2 & C2 & F2 & _).
+  exists s2. splits; auto.
+  cbn [array_loop f_allow]. rewrite E1. cbv beta iota. rewrite E2. reflexivity.
+Qed.
+
+Lemma d_case_e_one : forall cf d w1 t v w2,
+  dws cf w1 -> dPv cf d t v -> dws cf w2 -> dPe cf d (w1 ++ t ++ w2) [v].
+Proof.
+  intros cf d w1 t v w2 W1 IH W2 L fuel fl s rest acc DL G S LF LL.
+  rewrite <- !app_assoc in S, LF, LL.
+  destruct fl as [|fl]; [lia|].
+  destruct (d_element_step cf d t v IH w1 w2 93 rest L fuel fl acc s W1 W2 ltac:(tauto) DL G S LF LL)
+    as (s2 & G2 & S2 & C2 & F2 & E).
+  rewrite E.
+  destruct (eat_yes s2 93 rest G2 S2 ltac:(lia)) as (s3 & E3 & G3 & S3 & C3 & F3).
+  rewrite E3. exists s3. splits; auto. congruence.
+Qed.
+
+Lemma d_case_e_cons : forall cf d w1 t v w2 r vs,
+  dws cf w1 -> dPv cf d t v -> dws cf w2 -> dPe cf d r vs ->
+  dPe cf d (w1 ++ t ++ w2 ++ [44] ++ r) (v :: vs).
+Proof.
+  intros cf d w1 t v w2 r vs W1 IHv W2 IHr L fuel fl s rest acc DL G S LF LL.
+  rewrite <- !app_assoc in S, LF, LL. cbn [app] in S, LF, LL.
+  destruct fl as [|fl]; [lia|].
+  destruct (d_element_step cf d t v IHv w1 w2 44 (r ++ 93 :: rest) L fuel fl acc s W1 W2 ltac:(tauto) DL G S LF LL)
+    as (s2 & G2 & S2 & C2 & F2 & E).
+  rewrite E.
+  rewrite (eat_no_some s2 44 93 C2 ltac:(lia)).
+  destruct (eat_yes s2 44 _ G2 S2 ltac:(lia)) as (s3 & E3 & G3 & S3 & C3 & F3).
+  rewrite E3.
+  destruct (IHr L fuel fl s3 rest (acc ++ [v]) DL G3 S3 ltac:(lens) ltac:(lens))
+    as (s' & E' & G' & S' & C' & F').
+  exists s'. rewrite E', <- app_assoc. cbn [app]. splits; auto.
+Qed.
+
+Lemma d_case_arr : forall cf d te vs,
+  delements cf d te vs -> dPe cf d te vs -> dPv cf (S d) ([91] ++ te ++ [93]) (JArr vs).
+Proof.
+  intros cf d te vs J IH L fuel s w rest W DL G HS D LF.
+  destruct L as [|L]; [lia|].
+  destruct fuel as [|fuel0]; [lia|].
+  rewrite <- !app_assoc in HS. cbn [app] in HS.
+  assert (V : dvs 91) by (unfold dvs; splits; try reflexivity; lia).
+  destruct (dpv_enter cf w (S fuel0) s 91 _ W G HS V ltac:(lens)) as (s1 & E1 & G1 & S1 & C1 & F1).
+  rewrite (pv_arr cf (S fuel0) L s s1 E1 C1).
+  destruct (move_cons s1 91 _ G1 C1 S1) as (G2 & S2 & C2 & F2).
+  destruct (delements_head _ _ _ _ J) as (w1 & c & r & W1 & Ete & Vc).
+  assert (S2' : stream (move s1) = w1 ++ c :: (r ++ 93 :: rest))
+    by (rewrite S2, Ete, <- app_assoc; reflexivity).
+  assert (LW : (length w1 < S fuel0)%nat) by (rewrite Ete in LF; lens).
+  destruct (dpv_enter cf w1 (S fuel0) (move s1) c _ W1 G2 S2' Vc LW) as (s3 & E3 & G3 & S3 & C3 & F3).
+  rewrite E3. cbv beta iota.
+  destruct Vc as (VA & VB & VC & N93 & VD).
+  rewrite (eat_no_some s3 c 93 C3 N93). cbv beta iota.
+  rewrite (d_array_loop_skip cf (S fuel0) L _ fuel0 [] (move s1) s3 c E3 C3 F3
+             (conj VA (conj VB (conj VC (conj N93 VD))))).
+  destruct (IH L (S fuel0) (S fuel0) (move s1) rest [] ltac:(lia) G2 S2 ltac:(lens) ltac:(lens))
+    as (s' & E' & G' & S' & C' & F').
+  rewrite E'. exists s'. cbn [app]. splits; auto.
+  - left; auto.
+  - discriminate.
+Qed.
+
+(* objects *)
+
+Lemma d_case_obj_empty : forall cf d w0, dws cf w0 -> dPv cf (S d) ([123] ++ w0 ++ [125]) (JObj []).
+Proof.
+  intros cf d w0 W0 L fuel s w rest W DL G HS D LF.
+  destruct L as [|L]; [lia|].
+  rewrite <- !app_assoc in HS. cbn [app] in HS.
+  assert (V : dvs 123) by (unfold dvs; splits; try reflexivity; lia).
+  destruct (dpv_enter cf w fuel s 123 _ W G HS V ltac:(lens)) as (s1 & E1 & G1 & S1 & C1 & F1).
+  rewrite (pv_obj cf fuel L s s1 E1 C1).
+  destruct (move_cons s1 123 _ G1 C1 S1) as (G2 & S2 & C2 & F2).
+  destruct (skip_dws cf w0 W0 fuel (move s1) 125 rest G2 S2 ltac:(lia) eq_refl ltac:(lia) ltac:(lens))
+    as (s3 & E3 & G3 & S3 & C3 & F3 & _).
+  rewrite E3. cbv beta iota.
+  destruct (eat_yes s3 125 rest G3 S3 ltac:(lia)) as (s4 & E4 & G4 & S4 & C4 & F4).
+  rewrite E4. exists s4. splits; auto.
+  - left; auto.
+  - congruence.
+  - discriminate.
+Qed.
+
+Lemma d_member_step : forall cf d t v, dPv cf d t v ->
+  forall w1 kt k w2 w3 w4 c tl L fuel fl acc s,
+    dws cf w1 -> dkey cf kt k -> dws cf w2 -> dws cf w3 -> dws cf w4 -> c = 44 \/ c = 125 ->
+    (d <= L)%nat ->
+    good s -> stream s = w1 ++ kt ++ w2 ++ 58 :: w3 ++ t ++ w4 ++ c :: tl ->
+    (length (w1 ++ kt ++ w2 ++ 58%N :: w3 ++ t ++ w4 ++ c :: tl) < fuel)%nat ->
+    (length (w1 ++ kt ++ w2 ++ 58%N :: w3 ++ t ++ w4 ++ c :: tl) < S fl)%nat ->
+    exists s6, good s6 /\ stream s6 = c :: tl /\ cur s6 = Some c /\ found s6 = true /\
+      obj_entry cf (parse_variant cf fuel L) (skip_variant cf fuel L) (S fl) None acc s =
+      (let '(b, s) := eat 125 s6 in
+       if b then (Ok, JObj (assoc_set k v acc), s)
+       else
+         let '(b, s) := eat 44 s in
+         if negb b then (InvalidInput, JObj (assoc_set k v acc), s)
+         else obj_entry cf (parse_variant cf fuel L) (skip_variant cf fuel L) fl None
+                        (assoc_set k v acc) s).
+Proof.
+  intros cf d t v IH w1 kt k w2 w3 w4 c tl L fuel fl acc s W1 JK W2 W3 W4 HC DL G HS LF LL.
+  assert (HC' : c = 44 \/ c = 93 \/ c = 125) by tauto.
+  assert (CZ : c <> 0) by (destruct HC; lia).
+  assert (CS : is_space c = false) by (destruct HC as [->| ->]; reflexivity).
+  assert (C47 : c <> 47) by (destruct HC; lia).
+  destruct (dkey_head cf kt k JK) as (kc & kr & Ek & (KA & KB & KC & _)).
+  assert (S0 : stream s = w1 ++ kc :: (kr ++ w2 ++ 58 :: w3 ++ t ++ w4 ++ c :: tl))
+    by (rewrite HS, Ek; reflexivity).
+  destruct (skip_dws cf w1 W1 (S fl) s kc _ G S0 KA KB (fun _ => KC) ltac:(lens))
+    as (s1 & E1 & G1 & S1 & C1 & F1 & _).
+  destruct (dws_next cf w2 58 (w3 ++ t ++ w4 ++ c :: tl) W2 ltac:(tauto)) as (x & r' & EX & XZ & _ & XN).
+  assert (S1' : stream s1 = kt ++ x :: r') by (rewrite S1, Ek, <- EX; reflexivity).
+  destruct (parse_dkey_ok cf kt k JK fl s1 x r' G1 S1' XZ XN ltac:(lens)) as (s2 & E2 & G2 & S2 & F2).
+  rewrite <- EX in S2.
+  destruct (skip_dws cf w2 W2 fl s2 58 _ G2 S2 ltac:(lia) eq_refl ltac:(lia) ltac:(lens))
+    as (s3 & E3 & G3 & S3 & C3 & F3 & _).
+  destruct (eat_yes s3 58 _ G3 S3 ltac:(lia)) as (s4 & E4 & G4 & S4 & C4 & F4).
+  destruct (IH L fuel s4 w3 (w4 ++ c :: tl) W3 DL G4 S4
+              (fun _ => delimiter_dws_then cf w4 c tl W4 HC') ltac:(lens))
+    as (s5 & E5 & P5 & F5 & _).
+  destruct (post_dws_good cf s5 w4 c tl P5 W4 HC') as (G5 & S5).
+  destruct (skip_dws cf w4 W4 fl s5 c tl G5 S5 CZ CS (fun _ => C47) ltac:(lens))
+    as (s6 & E6 & G6 & S6 & C6 & F6 & _).
+  exists s6. splits; auto.
+  unfold obj_entry at 1. rewrite E1. cbn [object_loop]. rewrite E2. cbv beta iota.
+  rewrite E3. cbv beta iota. rewrite E4. cbv beta iota zeta. cbn [negb f_member f_allow].
+  rewrite E5. cbv beta iota. rewrite E6. reflexivity.
+Qed.
+
+Lemma d_case_m_one : forall cf d w1 kt k w2 w3 t v w4,
+  dws cf w1 -> dkey cf kt k -> dws cf w2 -> dws cf w3 -> dPv cf d t v -> dws cf w4 ->
+  dPm cf d (w1 ++ kt ++ w2 ++ [58] ++ w3 ++ t ++ w4) [(k, v)].
+Proof.
+  intros cf d w1 kt k w2 w3 t v w4 W1 JK W2 W3 IH W4 L fuel fl s rest acc DL G HS LF LL.
+  rewrite <- !app_assoc in HS, LF, LL. cbn [app] in HS, LF, LL.
+  destruct fl as [|fl]; [lia|].
+  destruct (d_member_step cf d t v IH w1 kt k w2 w3 w4 125 rest L fuel fl acc s
+              W1 JK W2 W3 W4 ltac:(tauto) DL G HS LF LL) as (s6 & G6 & S6 & C6 & F6 & E).
+  rewrite E.
+  destruct (eat_yes s6 125 rest G6 S6 ltac:(lia)) as (s7 & E7 & G7 & S7 & C7 & F7).
+  rewrite E7. exists s7. unfold obj_den. cbn [fold_left fst snd]. splits; auto. congruence.
+Qed.
+
+Lemma d_case_m_cons : forall cf d w1 kt k w2 w3 t v w4 r ms,
+  dws cf w1 -> dkey cf kt k -> dws cf w2 -> dws cf w3 -> dPv cf d t v -> dws cf w4 ->
+  dPm cf d r ms ->
+  dPm cf d (w1 ++ kt ++ w2 ++ [58] ++ w3 ++ t ++ w4 ++ [44] ++ r) ((k, v) :: ms).
+Proof.
+  intros cf d w1 kt k w2 w3 t v w4 r ms W1 JK W2 W3 IHv W4 IHr L fuel fl s rest acc DL G HS LF LL.
+  rewrite <- !app_assoc in HS, LF, LL. cbn [app] in HS, LF, LL.
+  destruct fl as [|fl]; [lia|].
+  destruct (d_member_step cf d t v IHv w1 kt k w2 w3 w4 44 (r ++ 125 :: rest) L fuel fl acc s
+              W1 JK W2 W3 W4 ltac:(tauto) DL G HS LF LL) as (s6 & G6 & S6 & C6 & F6 & E).
+  rewrite E.
+  rewrite (eat_no_some s6 44 125 C6 ltac:(lia)).
+  destruct (eat_yes s6 44 _ G6 S6 ltac:(lia)) as (s7 & E7 & G7 & S7 & C7 & F7).
+  rewrite E7. cbn [negb].
+  destruct (IHr L fuel fl s7 rest (assoc_set k v acc) DL G7 S7 ltac:(lens) ltac:(lens))
+    as (s' & E' & G' & S' & C' & F').
+  exists s'. splits; auto.
+Qed.
+
+Lemma d_case_obj : forall cf d te ms,
+  dmembers cf d te ms -> dPm cf d te ms ->
+  dPv cf (S d) ([123] ++ te ++ [125])
+      (JObj (fold_left (fun acc m => assoc_set (fst m) (snd m) acc) ms [])).
+Proof.
+  intros cf d te ms J IH L fuel s w rest W DL G HS D LF.
+  destruct L as [|L]; [lia|].
+  rewrite <- !app_assoc in HS. cbn [app] in HS.
+  assert (V : dvs 123) by (unfold dvs; splits; try reflexivity; lia).
+  destruct (dpv_enter cf w fuel s 123 _ W G HS V ltac:(lens)) as (s1 & E1 & G1 & S1 & C1 & F1).
+  rewrite (pv_obj cf fuel L s s1 E1 C1).
+  destruct (move_cons s1 123 _ G1 C1 S1) as (G2 & S2 & C2 & F2).
+  destruct (dmembers_head _ _ _ _ J) as (w1 & c & r & W1 & Ete & Vc).
+  assert (S2' : stream (move s1) = w1 ++ c :: (r ++ 125 :: rest))
+    by (rewrite S2, Ete, <- app_assoc; reflexivity).
+  assert (LW : (length w1 < fuel)%nat) by (rewrite Ete in LF; lens).
+  destruct (dpv_enter cf w1 fuel (move s1) c _ W1 G2 S2' Vc LW) as (s3 & E3 & G3 & S3 & C3 & F3).
+  rewrite E3. cbv beta iota.
+  destruct Vc as (_ & _ & _ & _ & N125).
+  rewrite (eat_no_some s3 c 125 C3 N125). cbv beta iota.
+  destruct (IH L fuel fuel (move s1) rest [] ltac:(lia) G2 S2 ltac:(lens) ltac:(lens))
+    as (s' & E' & G' & S' & C' & F').
+  unfold obj_entry in E'. rewrite E3 in E'.
+  rewrite E'. exists s'. splits; auto.
+  - left; auto.
+  - discriminate.
+Qed.
+
+Lemma dialect_complete_all : forall cf,
+  (forall d t v, dvalue cf d t v -> dPv cf d t v) /\
+  (forall d t vs, delements cf d t vs -> dPe cf d t vs) /\
+  (forall d t ms, dmembers cf d t ms -> dPm cf d t ms).
+Proof.
+  intros cf. apply dvalue_mutind.
+  - intro d. apply d_case_null.
+  - intro d. apply d_case_true.
+  - intro d. apply d_case_false.
+  - intros d t v N. apply d_case_num; assumption.
+  - intros d t s J. apply d_case_str; assumption.
+  - intros d w W. apply d_case_arr_empty; assumption.
+  - intros d t vs J IH. apply d_case_arr; assumption.
+  - intros d w W. apply d_case_obj_empty; assumption.
+  - intros d t ms J IH. apply d_case_obj; assumption.
+  - intros d w1 t v w2 W1 _ IH W2. apply d_case_e_one; assumption.
+  - intros d w1 t v w2 r vs W1 _ IHv W2 _ IHr. apply d_case_e_cons; assumption.
+  - intros d w1 kt k w2 w3 t v w4 W1 JK W2 W3 _ IH W4. apply d_case_m_one; assumption.
+  - intros d w1 kt k w2 w3 t v w4 r ms W1 JK W2 W3 _ IHv W4 _ IHr. apply d_case_m_cons; assumption.
+Qed.
+
+(* the reader, mid-stream: a value of the dialect preceded by insignificant bytes; after a number
+   the next byte must not be a number character (after anything else, nothing is required) *)
+Theorem parse_variant_dialect_complete : forall cf d t v, dvalue cf d t v ->
+  forall L fuel s w rest,
+    dws cf w -> (d <= L)%nat -> good s -> stream s = w ++ t ++ rest ->
+    (is_number v = true -> delimiter cf rest) ->
+    (length (w ++ t ++ rest) < fuel)%nat ->
+    exists s', parse_variant cf fuel L None s = (Ok, v, s') /\ post s' rest /\ found s' = true /\
+               (is_number v = true -> lastc s' = hd 0 rest).
+Proof. intros cf d t v J. exact (proj1 (dialect_complete_all cf) d t v J). Qed.
+
+(* Every text of the dialect is accepted with its value, whatever follows it — except that a
+   top-level number must be followed by the end of input, a NUL or a whitespace byte. *)
+Theorem dialect_complete : forall cf L w t v rest d,
+  dws cf w -> dvalue cf d t v -> (d <= L)%nat -> dtrailing v rest ->
+  j_err (json_run cf None L (w ++ t ++ rest)) = Ok /\
+  j_doc (json_run cf None L (w ++ t ++ rest)) = v.
+Proof.
+  intros cf L w t v rest d W J DL T.
+  set (i := w ++ t ++ rest).
+  assert (LF : (length (w ++ t ++ rest) < json_fuel i)%nat) by (unfold json_fuel, i; lia).
+  assert (D : is_number v = true -> delimiter cf rest).
+  { intro IN. specialize (T IN). destruct rest as [|c r]; [exact I|]. cbn [delimiter].
+    apply not_numchar. destruct T as [->|T]; auto. }
+  destruct (parse_variant_dialect_complete cf d t v J L (json_fuel i) (ps_init i) w rest W DL
+              (good_init i) (stream_init i) D LF) as (s' & E & P & F & LC).
+  unfold json_run. rewrite E. cbn [j_err j_doc]. split; [|reflexivity].
+  destruct (is_number v) eqn:NV; [|rewrite andb_false_r; reflexivity].
+  rewrite (LC eq_refl). unfold dtrailing in T. rewrite NV in T. specialize (T eq_refl).
+  destruct rest as [|c r]; cbn [hd]; [reflexivity|].
+  destruct T as [->|T]; [reflexivity|]. rewrite T. cbn [negb]. rewrite andb_false_r. reflexivity.
+Qed.
+
+(* soundness and completeness together: acceptance is exactly membership in the dialect *)
+Corollary dialect_exact : forall cf L i v, bytes256 i ->
+  (j_err (json_run cf None L i) = Ok /\ j_doc (json_run cf None L i) = v) <->
+  (exists w t rest d, i = w ++ t ++ rest /\ dws cf w /\ (d <= L)%nat /\ dvalue cf d t v /\
+                      dtrailing v rest).
+Proof.
+  intros cf L i v B. split.
+  - intros [H <-].
+    destruct (dialect_sound cf L i _ B eq_refl H) as (w & t & rest & E & W & (d & DL & V) & T).
+    exists w, t, rest, d. auto.
+  - intros (w & t & rest & d & -> & W & DL & V & T).
+    exact (dialect_complete cf L w t v rest d W V DL T).
+Qed.
+
+(* ------------------------------------------------------------------------------------- *)
+(* The requested statements that are false as literally stated, refuted. *)
+
+(* (1) dialect_sound without [bytes256 i]: an artefact of [bytes = list N], not of the library *)
+Definition not_bytes : bytes := [34; 92; 117; 304; 48; 48; 48; 34].
+
+Lemma no_escape_304 : forall q hi body out t',
+  dchars default_cfg q hi body out -> body = 92 :: 117 :: 304 :: t' -> False.
+Proof.
+  intros q hi body out t' D.
+  destruct D as [hi|hi c t o CQ CZ C92 D|hi e c t o HIn D|hi t o DU D
+                 |hi tu u t o DU UE NS D|hi tu h t o DU UE HR D|hi tu l t o DU UE LR D]; intro Hb.
+  - discriminate Hb.
+  - injection Hb as -> _. congruence.
+  - injection Hb as -> _. unfold dialect_escapes in HIn. cbn [In] in HIn.
+    repeat (destruct HIn as [HIn|HIn]; [discriminate HIn|]). contradiction.
+  - discriminate DU.
+  - destruct UE as [d1 d2 d3 d4 v1 v2 v3 v4 H1 _ _ _]. cbn [app] in Hb. injection Hb as -> _.
+    discriminate H1.
+  - destruct UE as [d1 d2 d3 d4 v1 v2 v3 v4 H1 _ _ _]. cbn [app] in Hb. injection Hb as -> _.
+    discriminate H1.
+  - destruct UE as [d1 d2 d3 d4 v1 v2 v3 v4 H1 _ _ _]. cbn [app] in Hb. injection Hb as -> _.
+    discriminate H1.
+Qed.
+
+Theorem dialect_sound_needs_bytes :
+  ~ (forall cf L i o, o = json_run cf None L i -> j_err o = Ok ->
+       exists w t rest, i = w ++ t ++ rest /\ dws cf w /\
+         (exists d, (d <= L)%nat /\ dvalue cf d t (j_doc o)) /\ dtrailing (j_doc o) rest).
+Proof.
+  intro H.
+  assert (A : j_err (json_run default_cfg None 10 not_bytes) = Ok) by (vm_compute; reflexivity).
+  destruct (H default_cfg 10%nat not_bytes _ eq_refl A) as (w & t & rest & E & W & (d & _ & V) & _).
+  assert (X : j_doc (json_run default_cfg None 10 not_bytes) = JStr [0]) by (vm_compute; reflexivity).
+  rewrite X in V. clear X A H. unfold not_bytes in E.
+  assert (W0 : w = []).
+  { destruct W as [|c w Hc W|b w EC _ _ _|b w EC _ _]; [reflexivity| | |].
+    - cbn [app] in E. injection E as <- _. discriminate Hc.
+    - discriminate EC.
+    - discriminate EC. }
+  subst w. cbn [app] in E.
+  inversion V as [| | |d0 t0 v0 N|d0 t0 s0 DS| | | |]; subst.
+  - destruct N as (_ & _ & _ & _ & _ & _ & JV). apply jv_of_number_is_number in JV. discriminate JV.
+  - destruct DS as (q & body & HQ & -> & DC).
+    cbn [app] in E. injection E as <- E. rewrite <- app_assoc in E. cbn [app] in E.
+    destruct body as [|a [|b [|c body]]]; cbn [app] in E; try discriminate E.
+    injection E as <- <- <- _.
+    exact (no_escape_304 34 0 _ _ body DC eq_refl).
+Qed.
+
+(* (2) rfc_inside_dialect without ARDUINOJSON_DECODE_UNICODE: the RFC string made of the six
+   characters backslash u 0 0 4 1 denotes the letter A; the reader returns the six characters *)
+Theorem rfc_inside_dialect_needs_decode_unicode :
+  ~ (forall cf d t v, jvalueD (num_den cf) d t v -> dvalue cf d t v).
+Proof.
+  intro H.
+  assert (J : jvalueD (num_den no_decode_cfg) 0 [34; 92; 117; 48; 48; 52; 49; 34] (JStr [65])).
+  { apply vd_str. exists [92; 117; 48; 48; 52; 49]. split; [reflexivity|].
+    apply (chs_cons [92; 117; 48; 48; 52; 49] [65] [] []); [|constructor].
+    apply (ch_bmp _ 65); [|reflexivity].
+    exact (uesc 48 48 52 49 0 0 4 1 eq_refl eq_refl eq_refl eq_refl). }
+  pose proof (H _ _ _ _ J) as V.
+  destruct (dialect_complete no_decode_cfg 10 [] _ _ [] 0%nat (dws_nil _) V ltac:(lia)
+              ltac:(intro X; discriminate X)) as [_ D].
+  vm_compute in D. discriminate D.
+Qed.
+
+(* ------------------------------------------------------------------------------------- *)
+(* never an unclosed container or string: the accepted text of a container ends with its closing
+   bracket, that of a string with the quote that opened it *)
+Corollary accepted_is_closed : forall cf L i,
+  bytes256 i -> j_err (json_run cf None L i) = Ok ->
+  exists w t rest, i = w ++ t ++ rest /\ dws cf w /\
+    match j_doc (json_run cf None L i) with
+    | JArr _ => exists body, t = [91] ++ body ++ [93]
+    | JObj _ => exists body, t = [123] ++ body ++ [125]
+    | JStr _ => exists q body, (q = 34 \/ q = 39) /\ t = [q] ++ body ++ [q]
+    | _ => True
+    end.
+Proof.
+  intros cf L i B H.
+  destruct (dialect_sound cf L i _ B eq_refl H) as (w & t & rest & E & W & (d & _ & V) & _).
+  exists w, t, rest. split; [exact E|]. split; [exact W|].
+  exact (dvalue_closed cf d t _ V).
+Qed.
+
+(* ------------------------------------------------------------------------------------- *)
+(* The tolerances of parseQuotedString that the documentation does not list (they are part of
+   Spec/Dialect.v because the code accepts them):
+     "\uDC00"        lone low surrogate  -> U+10000 (paired with an imaginary U+D800)
+     "\uD83D"        lone high surrogate -> the empty string
+     "\uD83Dx\uDE00" non-adjacent pair   -> x followed by U+1F600
+     "\'"            escape not in the RFC
+     a raw TAB inside a string *)
+Example lone_surrogates_accepted :
+  let run i := let o := json_run default_cfg None 10 i in (j_err o, j_doc o) in
+  run [34; 92; 117; 68; 67; 48; 48; 34] = (Ok, JStr [240; 144; 128; 128]) /\
+  run [34; 92; 117; 68; 56; 51; 68; 34] = (Ok, JStr []) /\
+  run [34; 92; 117; 68; 56; 51; 68; 120; 92; 117; 68; 69; 48; 48; 34]
+    = (Ok, JStr [120; 240; 159; 152; 128]) /\
+  run [34; 92; 39; 34] = (Ok, JStr [39]) /\
+  run [34; 9; 34] = (Ok, JStr [9]).
+Proof. vm_compute. auto 6. Qed.
